@@ -12,964 +12,408 @@ Definition show_fres (r : fres) : string :=
   end.
 Definition check (rs : list rune) : string := digest (show_fres (format_res rs)).
 Definition full (rs : list rune) : string := show_fres (format_res rs).
-Eval vm_compute in ("<<<M1232>>>" ++ check (runes_of_ascii "packet u {
-    @leftPad
-( '\x00' ) match
-    // @lengthOf(
-    pack
-as	Logon {""" ++ [28040; 24687]%N ++ runes_of_ascii """  : As ,""`tick`""
-    : asx// " ++ [27880; 37322]%N ++ runes_of_ascii "
-, 0 : float} ,
-// @lengthOf(
-// " ++ [128512]%N ++ runes_of_ascii " emoji
-string trueish@calculatedFrom(""a	b"") , // " ++ [27880; 37322]%N ++ runes_of_ascii "
-match matchKey as
-// @lengthOf(
-//	t
-options1{
-//x
-/// triple
-00 :
-lengthOf
-// @lengthOf(
-//x
-} , match
-roots as Header
-{
-    42
-    :
-    string_
-,
-[ 10 ,
-""a\""b"" ,
-    ""\" ++ [233]%N ++ runes_of_ascii """ ,""\" ++ [233]%N ++ runes_of_ascii """  ,
-""CRC32"" ,""1"" , ""it's""
-// " ++ [27880; 37322]%N ++ runes_of_ascii "
-// trailing space 
-, ""abc"" ]
-    :
-lengthOf , ""CRC32"" :  As }, char[] falsey , //	t
-chars
-@lengthOf( a1
-)
-    //
-    , @tag( 255 )
-@lengthOf(x )	match metadata as // " ++ [128512]%N ++ runes_of_ascii " emoji
-rootA {007:
-trueish ,	00 :
-metadata , [ 0123456789] : x_y_z ,0 : Logon }
-    ,@leftPad ('\x00' )
-    zchar[ 1 ]pack `" ++ [233]%N ++ runes_of_ascii "`
-, @leftPad
-( )
-    match x_y_z	as	Z9_ {
-// a // b
-//x
-""" ++ [128512]%N ++ runes_of_ascii """ :leftPad } // packet A { u8 x, }
-,  repeat	Z9_	`tab	here` , // trailing space 
-} options
-// `tick` ""quote"" 'q'
-// " ++ [128512]%N ++ runes_of_ascii " emoji
-{ uint8x
-    = string	;
-}MetaData
-    // packet A { u8 x, }
-    MetaDataX
-    {
-    i64_ uint8x ,
-    zchar[
-0 ]float
-,char[] packetx // c
-`it's`,
-    }
-root
-packet
-crc {
-@tag(
-1 ) i64_ // @lengthOf(
-@calculatedFrom(
-    """ ++ [233]%N ++ runes_of_ascii "t" ++ [233]%N ++ runes_of_ascii """
-),//x
-@calculatedFrom( ""\n"" ) @calculatedFrom( ""it's"")@calculatedFrom( ""a\\""
-    ) chars
-uint8x , @tag(7)match Logon as
-    string_ { 3 : a1 , // " ++ [128512]%N ++ runes_of_ascii " emoji
-}// trailing space 
-, int16 i64_`
-`
-    , @tag(
-1 )
-falsey T
-, } root packet Foo { // trailing space 
-repeat // `tick` ""quote"" 'q'
-zchar{ i64_
-@calculatedFrom( //x
-""" ++ [233]%N ++ runes_of_ascii "t" ++ [233]%N ++ runes_of_ascii """ ) `line1
-line2`, match matchKey as
-zchar {
-    ""1"": As	[
-0 ]
-// a // b
-//
-: f32a
-    , [ ""x y"" ] // packet A { u8 x, }
-: body , ""it's""
-: _x , [ """ ++ [28040; 24687]%N ++ runes_of_ascii """ ,007
-]
-    :matchKey
-    ""x y"" : x_y_z
-, }
-,
-    zchar[ 7 ] metadata @lengthOf(_x )`// not a comment`	, float  @lengthOf(
-    matchKey /// triple
-) ,	}
-, packetx
-@calculatedFrom( ""// no comment""	)  , roots @lengthOf(falsey ), // " ++ [128512]%N ++ runes_of_ascii " emoji
-u8
-calculatedFrom
-    `{ , }` ,
-char[ 10 ]repeatCount // `tick` ""quote"" 'q'
-`crlf
-line` , @lengthOf(
-float//x
-)
-int16 int `two words` , repeat
-u64 x
-, i8i8
-@lengthOf(Packet )
-`" ++ [28040; 24687; 31867; 22411]%N ++ runes_of_ascii "`
-, }")).
-Eval vm_compute in ("<<<M1073>>>" ++ check (runes_of_ascii "
-packet uint8x { @lengthOf(i64_ // trailing space 
-) calculatedFrom {i32 Foo	@lengthOf( pack),
-// " ++ [27880; 37322]%N ++ runes_of_ascii "
-// " ++ [128512]%N ++ runes_of_ascii " emoji
-} ,@leftPad
-    (
-'\x00' ) repeat A `it's` //	t
-, // a // b
-@rightPad ( '\x00')Header@calculatedFrom(""" ++ [28040; 24687]%N ++ runes_of_ascii """ ) , @calculatedFrom( ""// no comment""	) @tag(
-0123456789) @tag(  7
-) options1 { match	u	as lengthOf { 10: lengthOf
-    ,/// triple
-""a\\""
-:
-    As//x
-,
-} ,
-options1 roots	`{ , }` , },// @lengthOf(
-repeat o
-    //x
-    `" ++ [28040; 24687; 31867; 22411]%N ++ runes_of_ascii "` , @tag(
-42) @calculatedFrom(""" ++ [233]%N ++ runes_of_ascii "t" ++ [233]%N ++ runes_of_ascii """
-)	int16 BodyLength	, repeat	Logon T`// not a comment` ,repeat x string_	, } MetaData len
-    { Header lengthOf `// not a comment` , } packet metadata	{ roots
-    // " ++ [27880; 37322]%N ++ runes_of_ascii "
-    @lengthOf(asx ), @tag(
-    65535 )
-string Header
-@calculatedFrom(  """ ++ [28040; 24687]%N ++ runes_of_ascii """ )
-`
-` , @lengthOf(As ) @lengthOf( string_ ) @leftPad	(
-)
-    repeat char[1] body  , @calculatedFrom( ""a\""b"" )
-match u128 as
-Pad{
-""\" ++ [233]%N ++ runes_of_ascii """ : float  [
-    7 // " ++ [128512]%N ++ runes_of_ascii " emoji
-] :
-    Packet
-, 10 : i8i8	,
-    // trailing space 
-    },@tag( 255)
-    f64 a1 @calculatedFrom( // a // b
-""a\""b"" )
-    ,
-@lengthOf( falsey
-)// trailing space 
-MetaDataX@lengthOf(MetaDataX)
-, @tag(42
-)
-    char[	007 ] x_y_z	,}MetaData Z9_{
-f32 MetaDataX `{ , }` , zchar[10
-    ] charz
-`a\` , u16 leftPad `tab	here` ,packetx // trailing space 
-asx `say ""hi""` , char[]
-    //x
-    u8x , }
-root packet
-    // packet A { u8 x, }
-    Packet
-    // @lengthOf(
-    { int32 chars,	repeat int8 stringy , string chars
-    ,repeat	chars
-    // `tick` ""quote"" 'q'
-    {  _x  ,repeat repeatCount trueish,
-falsey // @lengthOf(
-@calculatedFrom(
-""it's"" )// " ++ [128512]%N ++ runes_of_ascii " emoji
-, },
-// packet A { u8 x, }
-// trailing space 
-char[] i8i8
-    @lengthOf( packetx),}
-")).
-Eval vm_compute in ("<<<M3902>>>" ++ check (runes_of_ascii "options
+Eval vm_compute in ("<<<M1695>>>" ++ check (runes_of_ascii "// top
+options {
+    // c1a
+    // c1b
+    StringPrefixLenType = u8;// c5
+    ArrayPrefixLenType = u8;
+    // c9
+    FixedStringPadFromLeft = true;
+    FixedStringPadChar = ' ';// c17
+}// c18
 
-{StringPrefixLenType 
-=u16
-    ;
-
-    ArrayPrefixLenType
-    =u16
-; }
-
-    packet
-    SampleBinary 
-{
-    uint16
-	MsgType
-`" ++ [28040; 24687; 31867; 22411]%N ++ runes_of_ascii "`  ,	u16 BodyLenght 
-@lengthOf(
-    Body
-
-    )
-
-`" ++ [28040; 24687; 20307; 38271; 24230]%N ++ runes_of_ascii "` , match 
-MsgType as
-Body
-    {
-
-1 :
-
-    Logon  , 2  : Logout ,
-3
-
-    :
-    Heartbeat 
-,
-	4  :
-
-RiskControlRequest
-, 5 :
-    RiskControlResponse
-	,	},
-    @calculatedFrom(  ""CRC32""
-	)
-    u32
-
-    Ckecksum `" ++ [26657; 39564; 21644]%N ++ runes_of_ascii "`,
-} 
-packet
-
-    Logon
-    {
-@leftPad
-	(
-	'0' )char[ 
-10
-]UserName
-
-`" ++ [29992; 25143; 21517]%N ++ runes_of_ascii "`
-
-    ,
-
-    string	Password  `" ++ [23494; 30721]%N ++ runes_of_ascii "`
-,
-uint64 ClientId `" ++ [23458; 25143; 31471]%N ++ runes_of_ascii "ID` 
-, u16
-	HeartbeatInterval
-
-`" ++ [24515; 36339; 38388; 38548]%N ++ runes_of_ascii "`
-
-    , }
-
-    packet	Logout
-
-    { @rightPad ('0')
-	char[
-	10 ]  UserName `" ++ [29992; 25143; 21517]%N ++ runes_of_ascii "` 
-, uint64	ClientId
-
-`" ++ [23458; 25143; 31471]%N ++ runes_of_ascii "ID`	, }
-
-    packet
-
-Heartbeat {
-
-    }
-packet RiskControlRequest{ string 
-UniqueOrderId `" ++ [21807; 19968; 35746; 21333; 21495]%N ++ runes_of_ascii "`
-	,	char[
-16
-
-    ]
-
-    ClOrdID `" ++ [23458; 25143; 35746; 21333; 21495]%N ++ runes_of_ascii "`
-, 
-char[
-3]
-
-    MarketID 
-`" ++ [24066; 22330]%N ++ runes_of_ascii "id`
-
-,
-    char[
-	12
-]  SecurityID`" ++ [35777; 21048; 20195; 30721]%N ++ runes_of_ascii "` ,
-
-    char
-
-    Side 
-`" ++ [20080; 21334; 26041; 21521]%N ++ runes_of_ascii "` 
-, char OrderType`" ++ [35746; 21333; 31867; 22411]%N ++ runes_of_ascii "`
-,u64
-Price
-`" ++ [20215; 26684]%N ++ runes_of_ascii "`,
-
-u32 
-Qty `" ++ [25968; 37327]%N ++ runes_of_ascii "` , repeat string
-
-    ExtraInfo`" ++ [38468; 21152; 20449; 24687]%N ++ runes_of_ascii "`
-
-    ,
-
-    repeat
-SubOrder{
-
-    char[ 16 ] ClOrdID 
-`" ++ [23376; 35746; 21333; 21495]%N ++ runes_of_ascii "` ,u64  Price`" ++ [23376; 35746; 21333; 20215; 26684]%N ++ runes_of_ascii "`,u32  Qty`" ++ [23376; 35746; 21333; 25968; 37327]%N ++ runes_of_ascii "`,
-},
+packet Logout {
+    // c21
+    repeat string Px,// c25
+    repeat string seqNo,// c29a
+    // c29b
+    InMsgkind64 {
+        // c31
+        uint16 OrderId,// c34
+        char[] count,
+        repeat i32 venue,
+        // c41
+    },
 }
 
-packet
-    RiskControlResponse	{ string
-UniqueOrderId 
-`" ++ [21807; 19968; 35746; 21333; 21495]%N ++ runes_of_ascii "`  ,
-i32 Status
-`" ++ [29366; 24577]%N ++ runes_of_ascii "`  ,
+packet Heartbeat {
+    // c47a
+    // c47b
+    float32 tag7,
+    repeat InPrice50 {
+        repeat char[5] lastPx,
+        // c59
+        InRef42 {
+            // c61
+            u8 pad0,// c64
+        },// c66
+        uint32 Acct,
+        repeat Logout,// c72a
+        // c72b
+        repeat char[5] Qty,
+        // c78
+    },
+    repeat InSeqno30 {
+        // c83
+        repeat Logout,// c86
+    },// c88a
+    // c88b
+    @leftPad('0')
+    // c92a
+    // c92b
+    char[12] Acct,// c97a
+    // c97b
+    char[] Side2,
+    // c100
+    repeat string msgKind,
+}
 
-    string
-Msg `" ++ [32467; 26524; 20449; 24687]%N ++ runes_of_ascii "`
+// c105
+packet Ack {
+    // c108
+    Heartbeat,
+    // c110
+    char[8] seqNo,
+    // c115
+    float64 clOrdID,
+}// c119
 
-, repeat  Detail
-, } 
-packet	Detail
-    {string
-RuleName
-    `" ++ [35268; 21017; 21517; 31216]%N ++ runes_of_ascii "`
-	,
-	u16 Code`" ++ [21407; 22240; 20195; 30721]%N ++ runes_of_ascii "`,
-    }
-
-")).
-Eval vm_compute in ("<<<M3577>>>" ++ check (runes_of_ascii "// top
-options {
-    LittleEndian = false;// c5
-    StringPrefixLenType = u16;
-    // c9
-    ArrayPrefixLenType = u32;// c13
+packet Trade {
+    // c122
+    char[] OrderId,// c125
+    f64 Side2,// c128a
+    // c128b
+    zchar[8] f1,
+    // c133
+    string Qty,
+    // c136
+    float64 seqNo,// c139a
+    // c139b
+    repeat Logout,
+    // c142
 }
 
 packet Order {
-    uint8 x,
-    repeat string venue,
-    // c24
+    f32 OrderId,// c149
+    repeat u8 x,// c153
+    Ack,
+    // c155
+    zchar[7] Note,// c160
 }
 
-// c25
-packet Heartbeat {
-    // c28
-    i64 count,
-    // c31
-    zchar[1] Qty,
-    // c36
-    repeat InX29 {
-        // c39a
-        // c39b
-        InSeqno26 {
-            // c41a
-            // c41b
-            int64 f1,
-            char[5] Acct,// c49a
-            // c49b
-            Order,
-            // c51
-        },// c53a
-        // c53b
-        repeat InSide285 {
-            // c56a
-            // c56b
-            repeat Order,
-            char[10] Px,// c64a
-            // c64b
-            zchar[9] OrderId,// c69a
-            // c69b
-        },// c71a
-        // c71b
-        char[] venue,
-        // c74
-        Order,
-        // c76
-    },// c78
+root packet Logon {
     @rightPad('\x00')
-    // c82
-    char[4] clOrdID,// c87
+    // c169
+    char[9] f1,// c174
 }
-
-// c88
-root packet Party {
-    zchar[3] f1,
-    u32 clOrdID,// c100a
-    // c100b
-    u32 Px @lengthOf(Body),
-    // c106
-    match clOrdID as Body {
-        [180, 64] : Heartbeat,
-        // c119
-        11 : Order,
-        // c123a
-        // c123b
-    },
-    // c125
-    u32 Side2 @calculatedFrom(""CRC32""),// c131a
-    // c131b
-}
-// c132")).
-Eval vm_compute in ("<<<M4362>>>" ++ check (runes_of_ascii "packet Packet {
-}
-
-packet repeatCount {
-    @tag(4294967296)
-    @lengthOf(A)
-    @lengthOf(float)
-    rootA,
-    @tag(0123456789)
-    Header `// not a comment`,
-    matchKey f32a,
-    Pad,
-    repeat float32 uint8x `" ++ [233]%N ++ runes_of_ascii "`,
-    @leftPad('\x00')
-    repeat char[3] tag `
-    `,
-    repeat pack {
-        repeat x {
-            repeat f64 len,
-            i64_ len,
-        },
-        repeatCount @lengthOf(uint8x),
-        match zchar as a1 {
-            // a // b
-            // packet A { u8 x, }
-            3 : u,
-        },// packet A { u8 x, }
-        repeat rootA {
-            options1 {
-                repeat body u8x `crlf
-                line`,
-                match Z9_ as f32a {
-                    007 : repeatCount,
-                    ""packet"" : calculatedFrom,
-                    // " ++ [128512]%N ++ runes_of_ascii " emoji
-                    10 : calculatedFrom,
-                    ""CRC32"" : _x,
-                    [""x y""] : i64_,
-                    ""packet"" : MetaDataX,
-                },
-            },
-            //x
-        },
-    },
-}
-
-MetaData asx {
-    u trueish,
-    chars f32a `// not a comment`,
-    float64 u128,
-    string_ string_ `
-    `,
-}
-
-packet crc {
-}")).
-Eval vm_compute in ("<<<M4520>>>" ++ check (runes_of_ascii "MetaData body {
-    asx stringy,
-    f64 As ``,
-    Foo Logon `a\`,
-    packetx asx `" ++ [28040; 24687; 31867; 22411]%N ++ runes_of_ascii "`,
-    u32 matchKey `line1
-    line2`,
-    u16 chars,
-}
-
-root packet _x {
-    match rootA as repeatCount {
-        /// triple
-        //x
-        007 : msg_type,
-        /// triple
-        [4294967296, ""// no comment""] : leftPad,
-        """" : packetx,
-        0123456789 : Logon,
-        10 : a1,
-        [
-            ""abc"", 7, ""CRC32"", 0123456789, 255,
-            ""a\""b"", """ ++ [128512]%N ++ runes_of_ascii """
-        ] : len,
-    },
-    repeat string trueish,
-    @rightPad()
-    int64 f32a @lengthOf(tag),
-    // a // b
-    // @lengthOf(
-    zchar[42] lengthOf @lengthOf(tag) `{ , }`,
-    @tag(10)
-    int32 leftPad `doc`,
-    x_y_z chars,
-    @calculatedFrom(""// no comment"")
-    @lengthOf(_x)
-    @lengthOf(matchKey)
-    repeat zchar zchar,
-    @calculatedFrom(""a	b"")
-    repeat Pad i8i8,
-    @tag(1)
-    repeat int16 metadata,
-}
-
-options {
-    T = ""`tick`"";
-    crc = '\x00';// packet A { u8 x, }
-    o = ' ';
-}
-
-packet matchKey {
-    zchar[0123456789] crc,
-    @lengthOf(packetx)
-    char[] uint8x `say ""hi""`,
-    repeat As A,
-}
-// c")).
-Eval vm_compute in ("<<<M4509>>>" ++ check (runes_of_ascii "packet charz {
-    zchar @lengthOf(body),
-    string BodyLength ``,
-    float `" ++ [233]%N ++ runes_of_ascii "`,
-    @lengthOf(len)
-    @tag(255)
-    @calculatedFrom(""{,}"")
-    a1 int `two words`,
-    char[3] float @calculatedFrom(""CRC32""),
-    repeat int32 stringy,//
-    @tag(3)
-    @tag(3)
-    a1 {
-        match chars as roots {
-            ""it's"" : o,
-            ""CRC32"" : stringy,
-            0123456789 : Pad,
-            [""a	b"", """ ++ [128512]%N ++ runes_of_ascii """] : body,
-        },
-        char[42] u8x,
-        char[255] x_y_z @calculatedFrom(""packet""),
-        match body as BodyLength {
-            10 : zchar,
-            007 : uint8x,
-            ""a\""b"" : Header,
-            ""x y"" : chars,
-            007 : f32a,
-        },
-    },
-    match T as stringy {
-        10 : float,
-        // trailing space 
-        0 : string_,
-        10 : crc,
-        7 : chars,
-        7 : body,
-    },
-    repeat crc `
-        `,
-}
-
-MetaData roots {
-    char[] string_ `{ , }`,
-}
-
-root packet As {
-    @rightPad(' ')
-    i64 leftPad @calculatedFrom(""abc"") `doc`,
-    char[] options1,
-}")).
-Eval vm_compute in ("<<<M641>>>" ++ check (runes_of_ascii "root
-    packet pack {
-@lengthOf(
-leftPad) match msg_type
-    as// a // b
-lengthOf
-    {
-""\n"" : a1,3
-:tag 0 : metadata
-,
-    } ,
-    tag @calculatedFrom( ""CRC32"" )
-    `doc`/// triple
-,
-    @rightPad // `tick` ""quote"" 'q'
-('\x00'
-//x
-// " ++ [27880; 37322]%N ++ runes_of_ascii "
-)zchar[ 255 ]asx// @lengthOf(
-`say ""hi""` ,@calculatedFrom( ""a	b"")
-    @calculatedFrom(""" ++ [233]%N ++ runes_of_ascii "t" ++ [233]%N ++ runes_of_ascii """)@calculatedFrom(""packet"" ) Pad { match
-    rootA  as float {
-    [00 , 007 , ""a\""b"" ,"""",	""a	b"" , ""packet""	]: stringy 0 // trailing space 
-: float  ""\" ++ [233]%N ++ runes_of_ascii """ : int	,} , i8i8 { Foo @calculatedFrom( """ ++ [128512]%N ++ runes_of_ascii """
-),
-string zchar `" ++ [28040; 24687; 31867; 22411]%N ++ runes_of_ascii "` , zchar[ 3
-    // " ++ [27880; 37322]%N ++ runes_of_ascii "
-    ] metadata `crlf
-line` ,
-match leftPad as // c
-f32a //	t
-{ 0
-: // " ++ [27880; 37322]%N ++ runes_of_ascii "
-pack, [ """",  ""packet""
-, 0	,42,""abc""
-,
-// c
-// trailing space 
-1 ,
-    ""{,}"" ]
-: uint8x
-} ,
-} ,char[ 00
-// c
-// trailing space 
-] trueish @calculatedFrom( """ ++ [128512]%N ++ runes_of_ascii """) // `tick` ""quote"" 'q'
-,// c
-} , }packet repeatCount{@tag( 4294967296
-    )  i8i8
-// " ++ [27880; 37322]%N ++ runes_of_ascii "
-//x
-f32a,@lengthOf(  len )
-i8i8 {As`
-` // " ++ [128512]%N ++ runes_of_ascii " emoji
-, },repeat
-f64 asx , }
-")).
-Eval vm_compute in ("<<<M1106>>>" ++ check (runes_of_ascii "options
-    {Pad //x
-= """" ;// trailing space 
-zchar =char[ 65535 ] Foo // c
-= 1; } packet asx {
-repeat char u128
-// " ++ [27880; 37322]%N ++ runes_of_ascii "
-//x
-, i16 Pad ,x @lengthOf( Packet )`
-`, @tag( 10 ) repeat float32	i64_
-`// not a comment`,
-@calculatedFrom("""") @calculatedFrom( """")
-@calculatedFrom(
-    ""it's"") repeat  BodyLength Foo ``, /// triple
-matchKey
-    As `say ""hi""` ,
-@rightPad
-( ' ' ) i8i8 BodyLength `" ++ [233]%N ++ runes_of_ascii "`, } packet Pad
-{@tag( 10 ) match
-o // a // b
-as zchar {[  ""abc""
-    ] : i8i8
-,
-""// no comment"" : T ,
-} ,
-u128  f32a`{ , }`,  @rightPad	( ) float64 Packet @lengthOf(	chars )  `it's`, @rightPad (
-'0' /// triple
-) repeat
-    zchar
-Packet `" ++ [28040; 24687; 31867; 22411]%N ++ runes_of_ascii "`
-, @tag( 00
-// a // b
-/// triple
-)@rightPad( '0' ) match u as	pack {""" ++ [28040; 24687]%N ++ runes_of_ascii """ : repeatCount ""abc"" : Foo  7:A ,
-""\" ++ [233]%N ++ runes_of_ascii """// packet A { u8 x, }
-:_x , } ,	As @lengthOf( int
-    )
-//
-// " ++ [128512]%N ++ runes_of_ascii " emoji
-, char[ 7 ] rootA
-    @lengthOf( leftPad)
-    `{ , }` , repeat f64 x , @calculatedFrom( """ ++ [128512]%N ++ runes_of_ascii """ )
-char[] u128
-,  }")).
-Eval vm_compute in ("<<<M1042>>>" ++ check (runes_of_ascii "  MetaData
-//
-// a // b
-float {stringy // packet A { u8 x, }
-leftPad //
-, }
-root packet a1 /// triple
-{ @lengthOf(	matchKey ) char[] int `
-`
-    ,char[
-42] body `a\` , @leftPad ('0'
-    ) T { zchar[
-1 ] /// triple
-u128
-@lengthOf( repeatCount
-) `
-` , // trailing space 
-} , @lengthOf(
-msg_type
-// `tick` ""quote"" 'q'
-// @lengthOf(
-)
-    repeat uint16 rootA , @rightPad( ) repeat metadata i64_ `two words` , match leftPad as _x
-{
-// @lengthOf(
-/// triple
-00
-    :charz
-    , 7	:  float,// @lengthOf(
-""CRC32"" :	float 0123456789  :	rootA } ,  rootA , zchar[	42
-// " ++ [128512]%N ++ runes_of_ascii " emoji
+// c175")).
+Eval vm_compute in ("<<<M255>>>" ++ check (runes_of_ascii "/// triple
+MetaData Logon
+    {i16 body
+, } /// triple
+root packet
+Z9_ {	_x
 // packet A { u8 x, }
-]
-    pack , @lengthOf( trueish)
-    i64 Foo , //x
-body
-    `" ++ [28040; 24687; 31867; 22411]%N ++ runes_of_ascii "` , }packet T //
-{repeat Packet ,
-// trailing space 
-// `tick` ""quote"" 'q'
-char[]// @lengthOf(
-x
-`crlf
-line`
-, charz @lengthOf(
-    pack //
-) ,
-char[
-    // c
-    0 ] As,
-    @calculatedFrom( """ ++ [28040; 24687]%N ++ runes_of_ascii """
-    )MetaDataX ,}")).
-Eval vm_compute in ("<<<M1103>>>" ++ check (runes_of_ascii "/// triple
-packet // packet A { u8 x, }
-asx{stringy BodyLength `doc`,
-    @tag( 00 ) A
-    {  f32a  , i32 // @lengthOf(
-x_y_z @calculatedFrom( //
-""1"" ) `doc`, u32 // packet A { u8 x, }
-x_y_z
-    `" ++ [28040; 24687; 31867; 22411]%N ++ runes_of_ascii "` , uint16
-o `a\`
-, // a // b
-} ,
+// " ++ [128512]%N ++ runes_of_ascii " emoji
+{
+Foo {
+    matchKey { repeat
+    leftPad body ,
+    u128 MetaDataX ,
+    match uint8x as BodyLength{ ""abc"": int , [42
+    ,
+    10
+    ]: Z9_ , 1 :// a // b
+i64_ 0123456789 :
+u ,  ""a\""b""
+: chars , }
+    ,
+repeat //	t
+int32
 //x
-// trailing space 
-@leftPad ( ' ' )
-x_y_z @calculatedFrom( ""x y"" ) `{ , }` ,
-@calculatedFrom(
-""{,}""
-    // " ++ [27880; 37322]%N ++ runes_of_ascii "
-    )	MetaDataX ,
-    }packet x_y_z {
-    @calculatedFrom(
-""a\\"" )
-repeat char[
-    4294967296 ]	zchar
-    // `tick` ""quote"" 'q'
-    `it's` , @tag( 10
-)
-matchKey
-    @calculatedFrom( ""CRC32"")  , @calculatedFrom( ""it's"") repeat uint8x
-, zchar[ 7 ]  msg_type @lengthOf( crc )
-    `line1
-line2` ,falsey { x_y_z MetaDataX, int32 chars `" ++ [233]%N ++ runes_of_ascii "`
-// " ++ [128512]%N ++ runes_of_ascii " emoji
-// " ++ [128512]%N ++ runes_of_ascii " emoji
-, char[]
-stringy @calculatedFrom( """ ++ [128512]%N ++ runes_of_ascii """
-    )`" ++ [233]%N ++ runes_of_ascii "`,} ,@calculatedFrom(  ""abc""
-// a // b
-// a // b
-) repeat char Z9_ , }
+//	t
+packetx
+    , } ,  match zchar as u128
+    // @lengthOf(
+    { 007 //x
+: msg_type	""a\\"" : asx, """":T
+, 007 : charz, ""abc"":
+    /// triple
+    matchKey , ""x y"":  string_ ,
+}
+, repeat  zchar[
+0123456789 ]// trailing space 
+msg_type `doc` ,}, match Z9_ as MetaDataX
+{	[ 0 , ""1""
+    ]:
+    // packet A { u8 x, }
+    uint8x [ 65535 ,
+//
+//	t
+""""] :
+    x_y_z
+,""x y"": falsey ,
+65535
+:
+packetx, ""// no comment"": falsey [ 4294967296 , ""a\""b"" ,
+    ""\n"" , ""a\""b""	,
+    255 ]: charz	, } // @lengthOf(
+,
+}
+,
+    chars
+    int `u8 x,`
+    , @tag(65535)
+char[] Header `{ , }` , @tag(
+    255
+) match	repeatCount as
+    A { [4294967296 ,""\" ++ [233]%N ++ runes_of_ascii """ , ""packet"" , // packet A { u8 x, }
+42 ,
+007 , """ ++ [128512]%N ++ runes_of_ascii """, ""a\""b"" ]// c
+:
+    lengthOf , ""// no comment""
+:
+a1 ,""\n"" : MetaDataX//x
+3 // a // b
+:
+// @lengthOf(
+// packet A { u8 x, }
+body	, } , }
 ")).
-Eval vm_compute in ("<<<M3781>>>" ++ check (runes_of_ascii "
-options
+Eval vm_compute in ("<<<M1124>>>" ++ check (runes_of_ascii "// top
+root
+    // c0
+packet // c1a
+  // c1b
+msg_type // c2a
+  // c2b
+{ // c3
+i64 // c4
+options1 // c5a
+  // c5b
+,
+    // c6
+@lengthOf( // c7a
+  // c7b
+f32a // c8
+) // c9
+repeat // c10
+uint16
+    // c11
+Foo
+    // c12
+, // c13a
+  // c13b
+@calculatedFrom(
+    // c14
+""x y""
+    // c15
+) // c16a
+  // c16b
+repeat int64 // c18a
+  // c18b
+pack // c19a
+  // c19b
+, // c20a
+  // c20b
+@leftPad // c21
+(
+    // c22
+' '
+    // c23
+) // c24a
+  // c24b
+uint8
+    // c25
+Foo , }
+    // c28
+packet rootA // c30a
+  // c30b
+{ // c31
+f32a // c32a
+  // c32b
+x
+    // c33
+`two words` // c34
+, char // c36
+asx // c37a
+  // c37b
+@lengthOf(
+    // c38
+falsey // c39a
+  // c39b
+) // c40a
+  // c40b
+`u8 x,` // c41a
+  // c41b
+, // c42
+@lengthOf( i64_
+    // c44
+)
+    // c45
+uint16 // c46
+chars // c47a
+  // c47b
+, // c48
+@tag( // c49a
+  // c49b
+0 // c50a
+  // c50b
+) string
+    // c52
+_x
+    // c53
+@calculatedFrom(
+    // c54
+""abc""
+    // c55
+) // c56a
+  // c56b
+`// not a comment`
+    // c57
+, // c58
+} // c59a
+  // c59b
+")).
+Eval vm_compute in ("<<<M307>>>" ++ check (runes_of_ascii "options {
+    string_	= zchar[ 00
+    ]
+;}
+    packet falsey { @lengthOf( float	) string o // c
+,repeat msg_type , match MetaDataX as _x
+    { 3: Pad ,
+    }, leftPad@lengthOf(i8i8 //
+) , @tag(
+0123456789
+    )
+    i16 Packet `
+`
+,o pack `tab	here` ,zchar[ 10
+] int
+    , int16 Foo
+//	t
+// " ++ [128512]%N ++ runes_of_ascii " emoji
+@calculatedFrom(
+    ""CRC32"" )
+`u8 x,` , match f32a as	u8x
+{[ ""{,}""] : T, [ ""1""
+, 65535 ,3 , 0 ,/// triple
+""`tick`""
+    , 0123456789 ,""" ++ [128512]%N ++ runes_of_ascii """ , ""a\\"" ] :uint8x  , 255 : a1  , ""a	b""	: falsey """ ++ [28040; 24687]%N ++ runes_of_ascii """ : x
+    // " ++ [128512]%N ++ runes_of_ascii " emoji
+    , //	t
+[
+    ""packet""
+// c
+//	t
+,3
+    ]
+:
+int , } ,
+repeat Foo /// triple
+{  zchar[1
+]body ``  , roots
+    rootA ,	char[ 0] rootA `doc`, }	,
+    }// `tick` ""quote"" 'q'
+options{
+    } options { Header = int16
+; roots = false ; repeatCount/// triple
+=
+    uint8; stringy
+=	""x y"" ;leftPad = ""it's"";
+    } MetaData u {	string_// trailing space 
+Header
+, zchar[ 3 ] i64_, }
+")).
+Eval vm_compute in ("<<<M1444>>>" ++ check (runes_of_ascii "
 
-{	len=	int8  /// triple
-    Header
-    =
-	'0'
+  options {
+LittleEndian
+    =true
+	; StringPrefixLenType = u64
 ;
 
-} packet
-options1
-	{  @calculatedFrom(
+ArrayPrefixLenType	=
+u8
+	; 
+FixedStringPadChar	='0'; }
+	packet Reject{
+    i32
 
-""{,}"" )
-	repeat//
-    body
-    ,
-
-    }
-
-    packet  uint8x	{	repeat
-int8  f32a
-    , }
-
-    packet	As{ match u128
-as o {0
-
-    : len 
-,
-	    // c
-
-	}
-, @calculatedFrom(""""	)
-
-zchar// @lengthOf(
-	As,  zchar[
-	00]u8x
-, @lengthOf(	u8x )match
-stringy
-
-    as
-o
-
-{[ ""1""
-,
-""\" ++ [233]%N ++ runes_of_ascii """
-]// " ++ [128512]%N ++ runes_of_ascii " emoji
-  :
-repeatCount
-
-,  [
-	7
-, 
-	// " ++ [27880; 37322]%N ++ runes_of_ascii "
-	3
-	,
-""1""
-,  007 ,
-""\n""
-    , 0 
-]:	metadata
-,	//	t
-    ""it's"":o
-	,
-	00:
-roots ,4294967296 :uint8x
-,}  , @calculatedFrom(
-	""it's""
-    )
-@tag(
-3)	int
-    @lengthOf( int 
+Ref  , repeat f64 OrderId	, repeat 
+InNote12
+	{  u8 pad0 ,	}, @leftPad
+	( 
+' '
 )
-    ,
-    char[]
 
-asx
-@calculatedFrom( 
-""a\""b"" )
-`a\` ,int16
-    charz
+char[
 
-    , 
-  //	t
-	string x_y_z
-@lengthOf( int
-    )`a\`
+6
 
-    ,	i64 o
+]	count
+,  }	packet  Logout{ zchar[6 
+]Tail
+,
+repeat string
+	venue 
+,
+	}packet
+Cancel{ 
+u64
+count , repeat	char[ 5
 
-    ,}
-root packet  zchar	{  }
+    ] 
+lastPx ,
+	i64  Tail
+,
 
+    repeat
+InF140
+
+{	repeat 
+Logout
+    ,  repeat
+Reject
+	,
+} , } 
+root 
+packet 
+Trade
+	{
+    repeat InMsgkind39	{ repeat
+    Reject  ,
+char[
+
+    4
+]
+	Px 
+,  }  ,
+	string
+
+Acct 
+, uint16
+price
+
+    , f32 OrderId, u16 x ,
+
+u16
+    clOrdID
+@lengthOf(  Body
+    )	,
+    match x
+
+as Body	{178 
+: Logout, 
+13 : Cancel ,174
+    :	Reject
+,  }	,
+u16  Flags
+
+    @calculatedFrom(	""CRC32""), }
 ")).
-Eval vm_compute in ("<<<M3670>>>" ++ check (runes_of_ascii "
-//x
-  root
-	packet 
-Z9_
-{@calculatedFrom(
-""a\\"" )	zchar[ 1 ] 	 // @lengthOf(
-  a1 @lengthOf(Z9_ 
-)
-
-    ,
-
-@tag(0123456789) @lengthOf(
-Header )@tag( 4294967296)
-    uint8 u128
-	,
-i16  msg_type	// trailing space 
-,
-
-tag
-
-matchKey  ,repeat	i8
-options1`tab	here`	,
-
-repeat /// triple
-  f32a
-Z9_
-,  
-      /// triple
-//	t
-
-match  tag
-	as
-
-    Foo {	42
-    : 
-Logon ,
-	[ 4294967296
-	]
-
-:Pad
-
-,
-3 :
-a1
-
-,
-
-[
-
-    007	,
-
-1
-	] 
-:a1
-    , } , // packet A { u8 x, }
-	repeat zchar{
-
-repeat //
-
-u8 options1 // c
-  , 
-leftPad{ msg_type 
-, } ,
-	leftPad
-@lengthOf(string_
-
-)
-	`a\`
-	,} , zchar charz ,	string tag
-
-    @calculatedFrom( ""{,}""	)	,	// " ++ [27880; 37322]%N ++ runes_of_ascii "
-  	}  packet  // @lengthOf(
-
-u128 {
-@tag(	// " ++ [27880; 37322]%N ++ runes_of_ascii "
-	4294967296 ) @tag( 42 )
-	f32a 
-@lengthOf(float )	`" ++ [233]%N ++ runes_of_ascii "`
-, 
-}")).
-Eval vm_compute in ("<<<M3918>>>" ++ check (runes_of_ascii "options {
+Eval vm_compute in ("<<<M1893>>>" ++ check (runes_of_ascii "options {
     StringPrefixLenType = u16;
     ArrayPrefixLenType = u32;
     FixedStringPadFromLeft = false;
@@ -1016,1299 +460,740 @@ root packet Order {
     },
     u32 Tail @calculatedFrom(""CRC32""),
 }")).
-Eval vm_compute in ("<<<M1353>>>" ++ check (runes_of_ascii "root  packet uint8x
-    { }options {
-    o	=
-//x
-//
-' '
-; x_y_z= 0123456789 stringy= ""packet"" }
-packet
-    A
-    { match falsey as string_ {
-""" ++ [28040; 24687]%N ++ runes_of_ascii """	: packetx , 0 :BodyLength , } // @lengthOf(
-,
-float32// " ++ [27880; 37322]%N ++ runes_of_ascii "
-string_ @lengthOf(
-    a1) ,
-trueish @calculatedFrom( ""abc"" ),
-@leftPad //	t
-(  '0' )string matchKey
-    @lengthOf( x_y_z )  ``
-,
-leftPad {trueish @calculatedFrom(""a\""b"" ) // c
-,}, // `tick` ""quote"" 'q'
-@tag( 1
-    // trailing space 
-    )repeat float64 calculatedFrom`{ , }` , @leftPad
-    // @lengthOf(
-    (
-'\x00' )match Z9_ //	t
-as
-crc
-    { [0]  : a1 , //
-} , _x @lengthOf( T )// trailing space 
-, x_y_z `" ++ [28040; 24687; 31867; 22411]%N ++ runes_of_ascii "`
-// c
-// `tick` ""quote"" 'q'
-,
-repeat char[] Z9_  , }
-// " ++ [27880; 37322]%N ++ runes_of_ascii "
-")).
-Eval vm_compute in ("<<<M1306>>>" ++ check (runes_of_ascii "root packet a1
-{@leftPad ()repeat
-pack {repeat
-Header`doc`
-, } , } packet u {//x
-@tag( 65535) @tag( 007	)
-    repeat	uint8x {
-    match Packet as trueish {
-    [ ""1""
-    , 255 , //	t
-65535
-]: trueish ,// @lengthOf(
-""" ++ [233]%N ++ runes_of_ascii "t" ++ [233]%N ++ runes_of_ascii """ :
-    chars
-, """ ++ [233]%N ++ runes_of_ascii "t" ++ [233]%N ++ runes_of_ascii """:
-stringy	""// no comment"" : body
-,""\" ++ [233]%N ++ runes_of_ascii """ : body , } , repeat a1 options1 //	t
-, match	uint8x as Header  { [
-    ""packet""
-    ]
-    : uint8x
-, 10 :
-BodyLength
-,[	007
-]: Foo ,	007 :	T , ""\n"" :
-asx }, char[
-42
-]
-As
-, } , @calculatedFrom(
-""abc"" ) @rightPad // " ++ [128512]%N ++ runes_of_ascii " emoji
-( ) matchKey ``
-    , Logon
-o ,
-    @calculatedFrom(  ""`tick`""
-) repeat a1{ // c
-int8
-    len
-,	}
-// " ++ [27880; 37322]%N ++ runes_of_ascii "
-// `tick` ""quote"" 'q'
-, }
-// trailing space 
-")).
-Eval vm_compute in ("<<<M4186>>>" ++ check (runes_of_ascii "//x
-packet Packet {
-}// " ++ [128512]%N ++ runes_of_ascii " emoji
-
-packet A {
-    @calculatedFrom(""a	b"")
-    @tag(00)
-    char[4294967296] u128 ``,
-}
-
-options {
-    lengthOf = """ ++ [233]%N ++ runes_of_ascii "t" ++ [233]%N ++ runes_of_ascii """;
-    crc = ""CRC32"";
-}
-
-packet crc {
-    @tag(255)
-    @rightPad()
-    repeat Pad,
-    zchar[3] charz @lengthOf(zchar) `say ""hi""`,
-    repeat Header string_ ``,
-    len @calculatedFrom(""`tick`""),
-    @tag(65535)
-    match chars as msg_type {
-        4294967296 : roots,
-        """ ++ [233]%N ++ runes_of_ascii "t" ++ [233]%N ++ runes_of_ascii """ : _x,
-        ""CRC32"" : leftPad,
-        // packet A { u8 x, }
-        42 : MetaDataX,
-        // a // b
-        // c
-        [""a	b""] : i64_,
-        /// triple
-        ""`tick`"" : MetaDataX,
-    },
-}")).
-Eval vm_compute in ("<<<M834>>>" ++ check (runes_of_ascii "  packet Pad
-{ @tag(	0123456789)	float64 metadata `a\`
-, @calculatedFrom( ""a\""b""
-)	@lengthOf( //	t
-matchKey )uint8
-leftPad `it's`, i32 chars `two words` , @leftPad ( ' ')@calculatedFrom(
-""{,}"" ) leftPad	`" ++ [233]%N ++ runes_of_ascii "` , char[
-00 ] options1 `" ++ [233]%N ++ runes_of_ascii "` ,
-    repeat repeatCount
-    { repeat zchar
-{ char[ 65535 ]
-    // a // b
-    lengthOf@lengthOf( As ) `{ , }`
-    ,}
-,
-As _x , a1 //
-``	,
-calculatedFrom `{ , }` ,
-    } ,@lengthOf(  calculatedFrom )match
-    o as  x_y_z{  00: A ,
-    42: lengthOf , [""packet"" ,
-    10 ] :charz , [""{,}""
-//
-// `tick` ""quote"" 'q'
-, 1
-]  : tag // trailing space 
-[""{,}""] :int
-, }  ,	}
-")).
-Eval vm_compute in ("<<<M4012>>>" ++ check (runes_of_ascii "/// triple
-root packet x {
-    @rightPad()
-    // trailing space 
-    string f32a `two words`,
-    match MetaDataX as packetx {
-        ""CRC32"" : metadata,
-        ""\" ++ [233]%N ++ runes_of_ascii """ : leftPad,
-        // packet A { u8 x, }
-        // trailing space 
-        [
-            ""// no comment"", 00, 4294967296, 10, 65535,
-            ""`tick`"", ""a\""b""
-        ] : chars,
-        """ ++ [28040; 24687]%N ++ runes_of_ascii """ : Foo,
-        ""a\\"" : calculatedFrom,
-    },
-    @calculatedFrom(""a\\"")
-    @lengthOf(A)
-    @calculatedFrom(""" ++ [128512]%N ++ runes_of_ascii """)
-    x_y_z,
-    repeat crc {
-        string repeatCount,
-    },
-}
-
-options {
-}")).
-Eval vm_compute in ("<<<M1040>>>" ++ check (runes_of_ascii "
-options	{ zchar =	false ; Packet = ""`tick`"" ;	a1 =
-    // c
-    char[]
-    ; Packet =0123456789 ; }	packet msg_type  { /// triple
-@lengthOf( u128
-) body	@lengthOf( len ) ,@calculatedFrom( ""CRC32""
-)
-zchar[
-    /// triple
-    007 ]// packet A { u8 x, }
-repeatCount@lengthOf(
-Foo)  `it's` , i16 leftPad @calculatedFrom(""a\\"")
-`u8 x,` ,
-    /// triple
-    float ,
-@lengthOf(a1 )As @lengthOf( rootA ) `doc` // @lengthOf(
-, // " ++ [128512]%N ++ runes_of_ascii " emoji
-f32 o
-@calculatedFrom(""a	b"" )  `tab	here` ,
-    } options
-// @lengthOf(
-// " ++ [27880; 37322]%N ++ runes_of_ascii "
-{ } options { }
-
-")).
-Eval vm_compute in ("<<<M565>>>" ++ check (runes_of_ascii "
-MetaData float { u32 metadata
-, } root
-packet BodyLength { } packet float  {@calculatedFrom( ""\n""
-) int16 o
-    ,
-} MetaData stringy// `tick` ""quote"" 'q'
-{ } root	packet body
-{ char[255 ] BodyLength	,	@rightPad (
-    '\x00' ) u8 body`` , leftPad	@calculatedFrom( /// triple
-""a\\"" ) ,@lengthOf(options1 ) _x f32a
-`{ , }`
-    // " ++ [27880; 37322]%N ++ runes_of_ascii "
-    , @lengthOf(x )// @lengthOf(
+Eval vm_compute in ("<<<M1175>>>" ++ check (runes_of_ascii "// top
+MetaData
+    // c0
+x_y_z
+    // c1
+{
+    // c2
+char
+    // c3
 body
-`tab	here` , i64 zchar `" ++ [233]%N ++ runes_of_ascii "`, /// triple
-@tag(
-0123456789// " ++ [27880; 37322]%N ++ runes_of_ascii "
-)	match
-    BodyLength as A{ 10 : crc , }
-    , } // @lengthOf(")).
-Eval vm_compute in ("<<<M11>>>" ++ check (runes_of_ascii "packet u128 {
-@rightPad ( )
-@tag( 7) stringy
-body , }// packet A { u8 x, }
+    // c4
+,
+    // c5
+f64
+    // c6
+i8i8
+    // c7
+`two words`
+    // c8
+,
+    // c9
+body
+    // c10
+body
+    // c11
+`" ++ [28040; 24687; 31867; 22411]%N ++ runes_of_ascii "`
+    // c12
+,
+    // c13
+}
+    // c14
 root
-    packet // " ++ [27880; 37322]%N ++ runes_of_ascii "
+    // c15
+packet
+    // c16
+chars
+    // c17
+{
+    // c18
+@lengthOf(
+    // c19
 i64_
-    { }
-    packet falsey	{
-float@lengthOf(_x //	t
-)`" ++ [233]%N ++ runes_of_ascii "`
-, i32 a1 ,
-u {//	t
-string	crc
-,  } ,@leftPad
-    // a // b
-    (
-)repeat
-    options1 { calculatedFrom @calculatedFrom(
-    ""it's"" ) `{ , }`	, zchar falsey `u8 x,` ,repeat falsey  , }
-// packet A { u8 x, }
-//x
-, }root // " ++ [128512]%N ++ runes_of_ascii " emoji
-packet pack
-    { @tag( 0123456789 ) // @lengthOf(
-repeat
-//
-// " ++ [27880; 37322]%N ++ runes_of_ascii "
-uint32
-roots, }")).
-Eval vm_compute in ("<<<M1359>>>" ++ check (runes_of_ascii "MetaData calculatedFrom { float // " ++ [27880; 37322]%N ++ runes_of_ascii "
-len , u8
-uint8x , falsey	string_
-// packet A { u8 x, }
-// a // b
-,
-} MetaData
-falsey { } packet // @lengthOf(
-T
-{
-//x
-//x
-zchar[ 007 ] Packet @calculatedFrom(
-    ""// no comment"" )`{ , }` , repeat
-    u64 metadata //	t
-,
-u { char[255] T `u8 x,` , body,zchar[
-255]	repeatCount
-,},// a // b
-@calculatedFrom( ""// no comment""
-    )@leftPad( '\x00' )
-@lengthOf(
-    i64_) zchar[ 65535 ]float @lengthOf(trueish ) , }
-")).
-Eval vm_compute in ("<<<M373>>>" ++ check (runes_of_ascii "root	packet chars
-{ falsey , uint64 f32a @lengthOf( lengthOf
-) , // c
-}MetaData T{ char[] As ,
-} // trailing space 
-packet
-tag {
-    i64
-    Foo @lengthOf(
-    a1 ),@calculatedFrom(""" ++ [128512]%N ++ runes_of_ascii """ ) @leftPad ( '\x00'// " ++ [128512]%N ++ runes_of_ascii " emoji
+    // c20
 )
-    // a // b
-    @leftPad('\x00')
-repeat Foo MetaDataX , } root
-packet body {
-repeat u64
-    MetaDataX `u8 x,` ,
-@rightPad
-    (
-    ' ' )
-charz	@lengthOf(matchKey ) ,	@calculatedFrom(
-""""
-    )len @lengthOf(tag )
-, }
-")).
-Eval vm_compute in ("<<<M4060>>>" ++ check (runes_of_ascii "
-packet
-    i64_ { x_y_z
-`it's`
-
-, 
-o	@lengthOf( 
-i64_) 
-
-    // a // b
-
-,	char[ 007]
-trueish
-// trailing space 
-	/// triple
-
-@lengthOf(	leftPad 
-),
-} 
-MetaData
-    tag {
-char[ 65535
-
-] 
-
-// c
-  /// triple
-    	pack
-
+    // c21
+chars
+    // c22
 ,
-	int64
-Logon  `two words` 
-,	// a // b
-
-}
-packet
-u8x
-
-    {
-	float64
-
-    lengthOf , 
-repeat char[]
-	As ,u
-
-BodyLength ,tag {
-	repeat
-BodyLength
-	{ 	 // a // b
-uint16
-	zchar`doc` , } , }
-,}
-")).
-Eval vm_compute in ("<<<M1043>>>" ++ check (runes_of_ascii "packet // `tick` ""quote"" 'q'
-i8i8 {
-    // c
-    } MetaData repeatCount
-    //	t
-    {f32a leftPad
-    /// triple
-    `" ++ [233]%N ++ runes_of_ascii "` /// triple
-, BodyLength leftPad `line1
-line2`	, }packet lengthOf
-{	@lengthOf( tag)zchar[ 65535] stringy `
-` ,match // packet A { u8 x, }
-f32a
-    as
-u8x { 255 : o, [	007
-, // c
-""" ++ [28040; 24687]%N ++ runes_of_ascii """ , 255, 7, 3
-]//x
-:body , ""\" ++ [233]%N ++ runes_of_ascii """
-    :  zchar	, }, @leftPad( '\x00' ) Pad @calculatedFrom(  """ ++ [28040; 24687]%N ++ runes_of_ascii """
-) , }")).
-Eval vm_compute in ("<<<M361>>>" ++ check (runes_of_ascii "// c
-packet float// `tick` ""quote"" 'q'
-{ match tag
-as	x // " ++ [128512]%N ++ runes_of_ascii " emoji
+    // c23
+i8i8
+    // c24
 {
-""\n"" :
-    // a // b
-    A ,
-} , @lengthOf(
-    o ) A  , char[ 4294967296 ] o @lengthOf( // packet A { u8 x, }
-a1 ) , }	packet x {
-    char[
-3 ] BodyLength
-, }
-packet Header { @lengthOf( stringy )
-@tag(42	)@calculatedFrom(""1"" ) zchar[ 0123456789 ] As
+    // c25
+falsey
+    // c26
 @lengthOf(
-    // a // b
-    packetx ) `// not a comment` , } //	t")).
-Eval vm_compute in ("<<<M4337>>>" ++ check (runes_of_ascii "root packet A {
-    /// triple
-    repeat string Packet `say ""hi""`,
-}
-
-MetaData o {
-    char[] u128 `line1
-        line2`,
-    lengthOf x_y_z,
-    char[1] i8i8 `a\`,
-    int16 leftPad `two words`,
-    i16 asx,
-}// packet A { u8 x, }
-
-MetaData charz {
-    Header a1,
-    Header trueish `u8 x,`,
-    u128 stringy,
-    uint8 matchKey,
-    uint32 options1,
-    matchKey i8i8,
-}")).
-Eval vm_compute in ("<<<M304>>>" ++ check (runes_of_ascii "
-MetaData
-a1 {
-u128// @lengthOf(
-As ,char[
-4294967296] lengthOf ,
-uint64 msg_type	, x_y_z f32a
-, float32	o // " ++ [27880; 37322]%N ++ runes_of_ascii "
-,	} options
-// " ++ [27880; 37322]%N ++ runes_of_ascii "
-// " ++ [128512]%N ++ runes_of_ascii " emoji
-{
-//x
-// @lengthOf(
-}MetaData string_
-    {
-}
-packet roots {
-repeat f32 As `" ++ [28040; 24687; 31867; 22411]%N ++ runes_of_ascii "` , } options {
-    // " ++ [128512]%N ++ runes_of_ascii " emoji
-    uint8x = ""a	b""Packet//
-=42
-;pack =
-    10
-    ;
-    tag= string	; repeatCount = // " ++ [27880; 37322]%N ++ runes_of_ascii "
-char[ 0	] ; }")).
-Eval vm_compute in ("<<<M3563>>>" ++ check (runes_of_ascii "root
-	packet
-
-Foo // " ++ [128512]%N ++ runes_of_ascii " emoji
-
-	{ }  options { 
-    // a // b
-  	tag	// `tick` ""quote"" 'q'
-=//	t
-  	""""
-    ;  u8x =
-	zchar[
-
-    0 ] 
-}
-
-    MetaData int
-
-    {zchar[10 ]
-	lengthOf`` 
-,
-	i64 u8x  `// not a comment`
-    , MetaDataX
-
-    pack  // `tick` ""quote"" 'q'
-	`crlf
-line`,
-
-    Logon 
-charz`crlf
-line` , 
-//'1' a // b
-		}
-")).
-Eval vm_compute in ("<<<M4230>>>" ++ check (runes_of_ascii "packet o {
-    @lengthOf(As)
-    calculatedFrom @lengthOf(matchKey),// a // b
-}
-
-packet options1 {
-    match x as Foo {
-        [""a\""b"", 7] : u128,
-        """ ++ [128512]%N ++ runes_of_ascii """ : Packet,
-    },
-    repeat pack len `tab	here`,
-    msg_type,
-    @calculatedFrom(""" ++ [128512]%N ++ runes_of_ascii """)
-    char[10] zchar,
-}
-
-options {
-    metadata = ""CRC32"";
-    uint8x = false;
-}")).
-Eval vm_compute in ("<<<M1020>>>" ++ check (runes_of_ascii "packet
-stringy { string_
-    , }
-packet
-rootA
-    { f32
-A @lengthOf( lengthOf ) , @calculatedFrom(	""" ++ [233]%N ++ runes_of_ascii "t" ++ [233]%N ++ runes_of_ascii """ )zchar[ 4294967296// " ++ [27880; 37322]%N ++ runes_of_ascii "
-] float @lengthOf( Foo ) ,
-@rightPad (
-    '0' )
-// `tick` ""quote"" 'q'
-// packet A { u8 x, }
-string
-body
-`" ++ [233]%N ++ runes_of_ascii "` ,char[ 42
-//	t
-// packet A { u8 x, }
-] Logon @lengthOf( uint8x ) `u8 x,` , }
-")).
-Eval vm_compute in ("<<<M3671>>>" ++ check (runes_of_ascii "packet chars {
-}
-
-packet int {
-    options1 {
-        repeat int32 u,
-        char[] Pad `" ++ [28040; 24687; 31867; 22411]%N ++ runes_of_ascii "`,
-    },
-    repeat char[] T,
-    match u128 as Packet {
-        ""\n"" : MetaDataX,
-        ""\n"" : falsey,
-        ""a	b"" : i8i8,
-        ""it's"" : options1,
-        ""`tick`"" : pack,
-        ""\" ++ [233]%N ++ runes_of_ascii """ : int,
-    },
-}")).
-Eval vm_compute in ("<<<M1542>>>" ++ check (runes_of_ascii "root packet Foo // " ++ [128512]%N ++ runes_of_ascii " emoji
-{ } options {
-    // a // b
-    tag // `tick` ""quote"" 'q'
-= //	t
-""""
-    ; u8x = zchar[0  ] }
-MetaData
-    int {zchar[ 10]
-lengthOf	`` , float64 u8x`// not a comment` ,MetaDataX pack// `tick` ""quote"" 'q'
-`crlf
-line`
-, Logon charz `crlf
-line`
-    ,
-    // a // b
-    }
-")).
-Eval vm_compute in ("<<<M1505>>>" ++ check (runes_of_ascii "root packet Foo // " ++ [128512]%N ++ runes_of_ascii " emoji
-{ } options {
-    // a // b
-    tag // `tick` ""quote"" 'q'
-= //	t
-""""
-    ; u8x = zchar[0  ] }
-MetaData
-    int { {zchar[ 10]
-lengthOf	`` , i64 u8x`// not a comment` ,MetaDataX pack// `tick` ""quote"" 'q'
-`crlf
-line`
-, Logon charz `crlf
-line`
-    ,
-    // a // b
-    }
-")).
-Eval vm_compute in ("<<<M1417>>>" ++ check (runes_of_ascii "root uint64 Foo // " ++ [128512]%N ++ runes_of_ascii " emoji
-{ } options {
-    // a // b
-    tag // `tick` ""quote"" 'q'
-= //	t
-""""
-    ; u8x = zchar[0  ] }
-MetaData
-    int {zchar[ 10]
-lengthOf	`` , i64 u8x`// not a comment` ,MetaDataX pack// `tick` ""quote"" 'q'
-`crlf
-line`
-, Logon charz `crlf
-line`
-    ,
-    // a // b
-    }
-")).
-Eval vm_compute in ("<<<M1581>>>" ++ check (runes_of_ascii "root packet Foo // " ++ [128512]%N ++ runes_of_ascii " emoji
-{ } options {
-    // a // b
-    tag // `tick` ""quote"" 'q'
-= //	t
-""""
-    ; u8x = zchar[0  ] }
-MetaData
-    int {zchar[ 10]
-lengthOf	`` , i64 u8x`// not a comment` ,MetaDataX pack// `tick` ""quote"" 'q'
-`crlf
-line`
-, charz Logon `crlf
-line`
-    ,
-    // a // b
-    }
-")).
-Eval vm_compute in ("<<<M318>>>" ++ check (runes_of_ascii "
-packet As { @leftPad
-( )
-    @leftPad ( ' '  )char[] zchar, A string_
-`" ++ [233]%N ++ runes_of_ascii "`
-,
-a1
-    {	Z9_ @lengthOf(
-    repeatCount )
-    , u128
-{ zchar[4294967296 ] crc
-//x
-//
-@calculatedFrom(  ""packet"" ) ,repeat char x_y_z, }
-,	u8
-    Logon	@calculatedFrom(
-    """ ++ [233]%N ++ runes_of_ascii "t" ++ [233]%N ++ runes_of_ascii """ ) , }, }
-packet
-u { } // " ++ [128512]%N ++ runes_of_ascii " emoji")).
-Eval vm_compute in ("<<<M1474>>>" ++ check (runes_of_ascii "root packet Foo // " ++ [128512]%N ++ runes_of_ascii " emoji
-{ } options {
-    // a // b
-    tag // `tick` ""quote"" 'q'
-= //	t
-""""
-    ; u8x = 0  ] }
-MetaData
-    int {zchar[ 10]
-lengthOf	`` , i64 u8x`// not a comment` ,MetaDataX pack// `tick` ""quote"" 'q'
-`crlf
-line`
-, Logon charz `crlf
-line`
-    ,
-    // a // b
-    }
-")).
-Eval vm_compute in ("<<<M1152>>>" ++ check (runes_of_ascii "MetaData x_y_z{
-} packet Foo{  repeat i64_{
-int32 f32a
-    , } , i8i8
-    @lengthOf( lengthOf ) , @lengthOf( matchKey ) @leftPad
-(
-    '0'	) repeat uint8x { u{ zchar[
-7]
-    i64_ @calculatedFrom( ""\" ++ [233]%N ++ runes_of_ascii """ ) `two words` , repeat char[] Z9_ `doc`,	} , }
-, f32 calculatedFrom `doc`	,}
-")).
-Eval vm_compute in ("<<<M1598>>>" ++ check (runes_of_ascii "root packet Foo // " ++ [128512]%N ++ runes_of_ascii " emoji
-{ } options {
-    // a // b
-    tag // `tick` ""quote"" 'q'
-= //	t
-""""
-    ; u8x = zchar[0  ] }
-MetaData
-    int {zchar[ 10]
-lengthOf	`` , i64 u8x`// not a comment` ,MetaDataX pack// `tick` ""quote"" 'q'
-`crlf
-line`
-, Logon charz `crlf
-line`")).
-Eval vm_compute in ("<<<M3825>>>" ++ check (runes_of_ascii "
-MetaData
-pack
-
-    { Header
-len
-	,}packet i8i8 {
-
-    pack @lengthOf( 	 // @lengthOf(
-  	int
-	)
-    ,
-} root packet
-
-// `tick` ""quote"" 'q'
-	// c
-    MetaDataX
-{ 
-char[
-007  ]
-
-metadata ,}  MetaData  //x
-	MetaDataX {	int
-        //x
-    	o	,
-}
-")).
-Eval vm_compute in ("<<<M4000>>>" ++ check (runes_of_ascii "options 
-{  uint8x =""\n""
-	; 
-  // " ++ [128512]%N ++ runes_of_ascii " emoji
-  // packet A { u8 x, }
-    	} packet  
-      //
-  repeatCount
-    {  roots len,
-
-    @lengthOf(
-	f32a
-    )
-        // `tick` ""quote"" 'q'
-o
-`say ""hi""` ,} //	t
-
-	options //x
-  {
-	a1
-
-=
-u32
-    ;
-	}
-
-")).
-Eval vm_compute in ("<<<M4244>>>" ++ check (runes_of_ascii "// a // b
-      packet	/// triple
-	tag{ 
-match As as o{
-    ""`tick`"" 
-:	float , }
-
-,
-
-    string 	 // c
-    u128`two words` ,	}
-// " ++ [27880; 37322]%N ++ runes_of_ascii "
-
-// packet A { u8 x, }
-	packet
-
-    lengthOf
-	{
-
-int64
-	u@calculatedFrom(  """ ++ [233]%N ++ runes_of_ascii "t" ++ [233]%N ++ runes_of_ascii """
+    // c27
+stringy
+    // c28
 )
-
-    ,
-}")).
-Eval vm_compute in ("<<<M3551>>>" ++ check (runes_of_ascii "packet Sub {
-    u8 a,
-    u32 SubSum @calculatedFrom(""CRC16""),
-}
-root packet Frame {
-    u16 MsgType,
-    u16 BodyLen @lengthOf(Body),
-    Sub Body,
-    string note,
-    u32 Checksum @calculatedFrom(""CRC16""),
-    u8 tail,
-}
-")).
-Eval vm_compute in ("<<<M2293>>>" ++ check (runes_of_ascii "MetaData Packet { }packet	asx  { @lengthOf( asx) falsey`crlf
-line`
+    // c29
+`doc`
+    // c30
 ,
-    }
-    packet x	string uint32// @lengthOf(
-rootA	,u32 options1 `say ""hi""` , @tag( 7
-    )// packet A { u8 x, }
-msg_type @lengthOf(
-stringy	)	, }
-
-")).
-Eval vm_compute in ("<<<M2298>>>" ++ check (runes_of_ascii "MetaData Packet { }packet	asx  { @lengthOf( asx) falsey`crlf
-line`
-,
-    }
-    packet x	{@leftPad// @lengthOf(
-rootA	,u32 options1 `say ""hi""` , @tag( 7
-    )// packet A { u8 x, }
-msg_type @lengthOf(
-stringy	)	, }
-
-")).
-Eval vm_compute in ("<<<M2214>>>" ++ check (runes_of_ascii "Packet MetaData { }packet	asx  { @lengthOf( asx) falsey`crlf
-line`
-,
-    }
-    packet x	{uint32// @lengthOf(
-rootA	,u32 options1 `say ""hi""` , @tag( 7
-    )// packet A { u8 x, }
-msg_type @lengthOf(
-stringy	)	, }
-
-")).
-Eval vm_compute in ("<<<M3289>>>" ++ check (runes_of_ascii "// top
-packet // c0
-o // c1
-{ // c2
-@tag( // c3
-42 // c4
-) // c5
-repeat // c6
-x // c7
-{ // c8
-char[ // c9
-0123456789 // c10
-] // c11
-i64_ // c12
-, // c13
-} // c14
-, // c15
-} // c16
-options // c17
-{ // c18
-} // c19
-")).
-Eval vm_compute in ("<<<M2394>>>" ++ check (runes_of_ascii "MetaData a" ++ [769]%N ++ runes_of_ascii "b { }packet	asx  { @lengthOf( asx) falsey`crlf
-line`
-,
-    }
-    packet x	{uint32// @lengthOf(
-rootA	,u32 options1 `say ""hi""` , @tag( 7
-    )// packet A { u8 x, }
-msg_type @lengthOf(
-stringy	)	, }
-
-")).
-Eval vm_compute in ("<<<M839>>>" ++ check (runes_of_ascii "packet Z9_ { i32 body
-,	u64 u8x @lengthOf(
-    // trailing space 
-    x_y_z ) ,@lengthOf( u128
-    ) zchar[
-    00 ] stringy,
-repeat uint8
-leftPad , } packet matchKey { } // @lengthOf(
-packet pack //
-{}
-")).
-Eval vm_compute in ("<<<M637>>>" ++ check (runes_of_ascii "root //
-packet A // packet A { u8 x, }
-{ @lengthOf( calculatedFrom )
-@tag( 65535 ) charz @lengthOf(charz
-    )  , } options {
-crc
-= 65535 }
-options
-    {leftPad // @lengthOf(
-=1
-    A =
-true
-;
+    // c31
 }
-")).
-Eval vm_compute in ("<<<M604>>>" ++ check (runes_of_ascii "options { rootA = '\x00' _x = true
-//
-// @lengthOf(
+    // c32
+,
+    // c33
+x
+    // c34
+@lengthOf(
+    // c35
+A
+    // c36
+)
+    // c37
+`crlf
+line`
+    // c38
+,
+    // c39
 }
-    packet //
-uint8x
-{ uint16 u
-    /// triple
-    @lengthOf( x_y_z )
-    //
-    `say ""hi""` ,} MetaData // @lengthOf(
-_x { } options
-{ }
+    // c40
 ")).
-Eval vm_compute in ("<<<M3839>>>" ++ check (runes_of_ascii "packet stringy {
+Eval vm_compute in ("<<<M1922>>>" ++ check (runes_of_ascii "// top
+root packet msg_type {
+    // c3
+    i64 options1,
+    // c6
+    @lengthOf(f32a)
+    // c9
+    repeat uint16 Foo,
+    // c13
+    @calculatedFrom(""x y"")
+    // c16
+    repeat int64 pack,
+    // c20
+    @leftPad(' ')
+    // c24
+    uint8 Foo,
+    // c27
+}
+
+// c28
+packet rootA {
+    // c31
+    f32a x `two words`,
+    // c35
+    char asx @lengthOf(falsey) `u8 x,`,
+    // c42
+    @lengthOf(i64_)
+    // c45
+    uint16 chars,
+    // c48
     @tag(0)
-    // packet A { u8 x, }
-    repeatCount,
-    @calculatedFrom("""")
-    body falsey,
-    @lengthOf(chars)
-    repeat x_y_z `two words`,
-    repeatCount Pad,
+    // c51
+    string _x @calculatedFrom(""abc"") `// not a comment`,
+    // c58
+}
+// c59")).
+Eval vm_compute in ("<<<M1514>>>" ++ check (runes_of_ascii "root packet i64_ {
+    packetx {
+        string zchar @calculatedFrom(""`tick`"") `
+                `,
+        zchar[1] metadata `doc`,
+        Foo @calculatedFrom(""CRC32""),
+    },
+    char[] roots `crlf
+        line`,
+    @calculatedFrom(""it's"")
+    char rootA,
+    @tag(7)
+    charz o `it's`,// a // b
+    char[007] msg_type @lengthOf(x_y_z),
+    repeat zchar[007] repeatCount `say ""hi""`,
+    match i64_ as rootA {
+        [""abc""] : T,
+    },
+    repeat chars,
 }")).
-Eval vm_compute in ("<<<M162>>>" ++ check (runes_of_ascii "packet float {// a // b
-@lengthOf(
-    T ) repeat charz
-    {
-    // c
-    packetx @calculatedFrom( """ ++ [28040; 24687]%N ++ runes_of_ascii """)
-    `" ++ [233]%N ++ runes_of_ascii "` // " ++ [27880; 37322]%N ++ runes_of_ascii "
-, char[
-4294967296 //x
-]Header	,  }
-    , } /// triple")).
-Eval vm_compute in ("<<<M295>>>" ++ check (runes_of_ascii "options{zchar
-=7 ;
-// c
-// packet A { u8 x, }
-msg_type =	uint8 falsey =	1 ;
-}
-    MetaData  Pad// @lengthOf(
-{ f64	u `tab	here`
-,// a // b
-}	options {
-    }
-// " ++ [128512]%N ++ runes_of_ascii " emoji
-")).
-Eval vm_compute in ("<<<M1258>>>" ++ check (runes_of_ascii "packet
-    stringy { @tag( 007
-)
-@calculatedFrom(
-""packet""
-    ) repeat// " ++ [27880; 37322]%N ++ runes_of_ascii "
-i64
-    x, _x// a // b
-, repeat char[7]Packet , }root packet body	{ i32	Pad
-,
-    }")).
-Eval vm_compute in ("<<<M421>>>" ++ check (runes_of_ascii "// c
-options
-{	x
-    = ""1"" x =	'\x00'	; body =65535
-    // `tick` ""quote"" 'q'
-    ; repeatCount = // packet A { u8 x, }
-' '
-trueish = // " ++ [128512]%N ++ runes_of_ascii " emoji
-char[]
-}
-")).
-Eval vm_compute in ("<<<M55>>>" ++ check (runes_of_ascii "
-packet Foo
-    {
-    repeat
-int
-    //x
-    { string u @calculatedFrom( ""packet"")	`` // @lengthOf(
-,}
-,zchar[ 007 ]  A
-    `doc`, }
-options { }")).
-Eval vm_compute in ("<<<M1518>>>" ++ check (runes_of_ascii "root packet Foo // " ++ [128512]%N ++ runes_of_ascii " emoji
-{ } options {
-    // a // b
-    tag // `tick` ""quote"" 'q'
-= //	t
-""""
-    ; u8x = zchar[0  ] }
-MetaData
-    int {zchar[")).
-Eval vm_compute in ("<<<M1513>>>" ++ check (runes_of_ascii "root packet Foo // " ++ [128512]%N ++ runes_of_ascii " emoji
-{ } options {
-    // a // b
-    tag // `tick` ""quote"" 'q'
-= //	t
-""""
-    ; u8x = zchar[0  ] }
-MetaData
-    int {")).
-Eval vm_compute in ("<<<M3786>>>" ++ check (runes_of_ascii "root packet rootA {
-    i32 MetaDataX @calculatedFrom(""CRC32"") `line1
-    lin@lengthOfe2`,
-}
-
-MetaData BodyLength {
-    u8 rootA,
-}// c")).
-Eval vm_compute in ("<<<M1725>>>" ++ check (runes_of_ascii "'' root packet /// triple
-rootA {	i32
-MetaDataX@calculatedFrom( ""CRC32"" ) `line1
-line2` , } MetaData BodyLength {
-u8
-rootA, } // c")).
-Eval vm_compute in ("<<<M1730>>>" ++ check (runes_of_ascii "root pac#ket /// triple
-rootA {	i32
-MetaDataX@calculatedFrom( ""CRC32"" ) `line1
-line2` , } MetaData BodyLength {
-u8
-rootA, } // c")).
-Eval vm_compute in ("<<<M1692>>>" ++ check (runes_of_ascii "root packet /// triple
-rootA {	i32
-MetaDataX@calculatedFrom( ""CRC32"" ) `line1
-line2` , } MetaData BodyLength 
-u8
-rootA, } // c")).
-Eval vm_compute in ("<<<M3791>>>" ++ check (runes_of_ascii "
+Eval vm_compute in ("<<<M1201>>>" ++ check (runes_of_ascii "// top
 packet
-
-    A
-	{
-
-Inner {	match k
-    as	n { 
-[
-
-    1
-, 
-22
-    ,007
-
-,
-4,5
-,66
-
-    ]: B
-,
-
-    }
-
-    ,} ,}
-
-")).
-Eval vm_compute in ("<<<M3930>>>" ++ check (runes_of_ascii "options {
-    Header = false
-    float = ""abc"";
-    i64_ = false;
-}
-
-options {
-    //
-    //x
-    repeatCount = ""a\\"";
-}
-//")).
-Eval vm_compute in ("<<<M485>>>" ++ check (runes_of_ascii "options{
-    Pad =	string options1 =  char[ 65535 ] float= 3
-    ;	falsey	=
-    '\x00' // a // b
-x=
-    //x
-    ' '  }
-")).
-Eval vm_compute in ("<<<M1893>>>" ++ check (runes_of_ascii "packet
-    Pad // a // b
-{ caf" ++ [233]%N ++ runes_of_ascii "_1 @calculatedFrom( ""a	b"") `u8 x,` ,
-} options{ float// " ++ [128512]%N ++ runes_of_ascii " emoji
-= f64 i64_
-=//	t
-00 }
-")).
-Eval vm_compute in ("<<<M1493>>>" ++ check (runes_of_ascii "root packet Foo // " ++ [128512]%N ++ runes_of_ascii " emoji
-{ } options {
-    // a // b
-    tag // `tick` ""quote"" 'q'
-= //	t
-""""
-    ; u8x = zchar[0  ]")).
-Eval vm_compute in ("<<<M1825>>>" ++ check (runes_of_ascii "packet
-    Pad // a // b
-{ i8i8 @calculatedFrom( ""a	b"") `u8 x,` ,
- options{ float// " ++ [128512]%N ++ runes_of_ascii " emoji
-= f64 i64_
-=//	t
-00 }
-")).
-Eval vm_compute in ("<<<M1488>>>" ++ check (runes_of_ascii "root packet Foo // " ++ [128512]%N ++ runes_of_ascii " emoji
-{ } options {
-    // a // b
-    tag // `tick` ""quote"" 'q'
-= //	t
-""""
-    ; u8x = zchar[0")).
-Eval vm_compute in ("<<<M757>>>" ++ check (runes_of_ascii "root packet	charz	{ @tag(
-    // trailing space 
-    0123456789 )
-string a1 `// not a comment` , }options {
-}
-
-")).
-Eval vm_compute in ("<<<M4284>>>" ++ check (runes_of_ascii "packet 
-Logon
+    // c0
+u128
+    // c1
 {
-	@tag(
-    42
-	)	@rightPad
-( 
-' ' )
-@leftPad
-
-()
-
-repeat trueish{
-
-string T ,} , // c
-  }
-
-")).
-Eval vm_compute in ("<<<M317>>>" ++ check (runes_of_ascii "packet BodyLength
+    // c2
+@lengthOf(
+    // c3
+body
+    // c4
+)
+    // c5
+match
+    // c6
+x_y_z
+    // c7
+as
+    // c8
+u
+    // c9
 {
-@calculatedFrom(	""""
-)// c
-char[  42 ]uint8x,} packet  len { uint64 a1  `{ , }`//x
-,}
+    // c10
+""x y""
+    // c11
+:
+    // c12
+i8i8
+    // c13
+,
+    // c14
+}
+    // c15
+,
+    // c16
+@tag(
+    // c17
+255
+    // c18
+)
+    // c19
+char[]
+    // c20
+roots
+    // c21
+@lengthOf(
+    // c22
+int
+    // c23
+)
+    // c24
+,
+    // c25
+}
+    // c26
 ")).
-Eval vm_compute in ("<<<M3340>>>" ++ check (runes_of_ascii "packet
-// c
-calculatedFrom { @tag( 4294967296 ) u msg_type , char[ 3 ] crc @lengthOf( len ) `u8 x,` , }")).
-Eval vm_compute in ("<<<M3372>>>" ++ check (runes_of_ascii "packet calculatedFrom { @tag( 4294967296 ) u msg_type , char[ 3 ] crc @lengthOf( len ) `u8 x,`
-// c
-, }")).
-Eval vm_compute in ("<<<M831>>>" ++ check (runes_of_ascii "packet
-    u { }
-MetaData string_ {
-metadata
-    msg_type , } options {pack= true; rootA= true }
-
+Eval vm_compute in ("<<<M1351>>>" ++ check (runes_of_ascii "packet B // c1
+{ // c2
+u8 // c3a
+  // c3b
+a // c4
+,
+    // c5
+} // c6a
+  // c6b
+root
+    // c7
+packet
+    // c8
+P // c9
+{ // c10a
+  // c10b
+u8 // c11
+K // c12a
+  // c12b
+, // c13a
+  // c13b
+u64 // c14
+L @lengthOf( Body // c17a
+  // c17b
+) // c18
+,
+    // c19
+match // c20a
+  // c20b
+K as // c22
+Body // c23
+{
+    // c24
+1 // c25
+: // c26
+B // c27
+, } , } // c31
 ")).
-Eval vm_compute in ("<<<M2989>>>" ++ check (runes_of_ascii "packet A {
-  match k as n {
-    [1, 22, 007, 4, 5, 66, 7, 8, 9, 10, 11, 12] : B,
-    2 : C
-  },
-}")).
-Eval vm_compute in ("<<<M3216>>>" ++ check (runes_of_ascii "packet // c
-Logon { @tag( 42 ) @rightPad ( ' ' ) @leftPad ( ) repeat trueish { string T , } , }")).
-Eval vm_compute in ("<<<M3248>>>" ++ check (runes_of_ascii "packet Logon { @tag( 42 ) @rightPad ( ' ' ) @leftPad ( ) repeat trueish { string // c
-T , } , }")).
-Eval vm_compute in ("<<<M3855>>>" ++ check (runes_of_ascii "packet A {
-    match k as n {
-        [""a"", ""bb"", 007, ""d"", ""e""] : B,
-        2 : C,
-    },
-}")).
-Eval vm_compute in ("<<<M1959>>>" ++ check (runes_of_ascii "root root
-packet crc
-    { f32a @calculatedFrom( """ ++ [233]%N ++ runes_of_ascii "t" ++ [233]%N ++ runes_of_ascii """ )
-    `say ""hi""`, lengthOf `` ,  }")).
-Eval vm_compute in ("<<<M2012>>>" ++ check (runes_of_ascii "root
-packet crc
-    { f32a @calculatedFrom( """ ++ [233]%N ++ runes_of_ascii "t" ++ [233]%N ++ runes_of_ascii """ )
-    `say ""hi""`, lengthOf `` `` ,  }")).
-Eval vm_compute in ("<<<M4155>>>" ++ check (runes_of_ascii "packet A {
-    match k as n {
-        [1, 22, ""c c"", 4, 5] : B,
-        2 : C,
-    },
-}")).
-Eval vm_compute in ("<<<M1983>>>" ++ check (runes_of_ascii "root
-packet crc
-    { f32a """ ++ [233]%N ++ runes_of_ascii "t" ++ [233]%N ++ runes_of_ascii """ @calculatedFrom( )
-    `say ""hi""`, lengthOf `` ,  }")).
-Eval vm_compute in ("<<<M3631>>>" ++ check (runes_of_ascii "root packet x_y_z {
-    // a // b
-    // packet A { u8 x, }
-    repeat falsey `" ++ [233]%N ++ runes_of_ascii "`,
-}")).
-Eval vm_compute in ("<<<M331>>>" ++ check (runes_of_ascii "MetaData
-// a // b
+Eval vm_compute in ("<<<M52>>>" ++ check (runes_of_ascii "// `tick` ""quote"" 'q'
+root packet u128{Z9_ { match trueish // c
+as rootA { [	""abc"" , ""{,}""
+,// c
+0 ]
+: MetaDataX [
+""a\""b""
+]
+: tag ,
+""CRC32"" :
 //	t
-rootA { } options //
-{ tag // `tick` ""quote"" 'q'
-=
-3; }
+/// triple
+options1 ,
+    [
+    """ ++ [28040; 24687]%N ++ runes_of_ascii """,
+""a\\"" ] :
+lengthOf
+    , ""a\""b""
+: chars ,
+    } , }
+,
+    @rightPad( '0'	) @calculatedFrom( ""CRC32"" ) char[00 ] packetx,
+} // a // b")).
+Eval vm_compute in ("<<<M1968>>>" ++ check (runes_of_ascii "
+options{
+matchKey
+
+= 42	/// triple
+    x= '0'
+    // packet A { u8 x, }
+      //
+
+charz
+= 
+
+// packet A { u8 x, }
+      // trailing space 
+true;	} 
+MetaData BodyLength
+    { uint8
+pack 
+,zchar[ 1  ] 
+float	,
+
+    float32  x_y_z
+
+    ``  ,
+    u32 _x
+
+    ,
+
+    i16
+body	,}
+
 ")).
-Eval vm_compute in ("<<<M3315>>>" ++ check (runes_of_ascii "packet o { @tag( 42 ) repeat x { char[ 0123456789
-// c
-] i64_ , } , } options { }")).
-Eval vm_compute in ("<<<M3179>>>" ++ check (runes_of_ascii "packet A { u16 // a
- len // b
- @lengthOf( // c
- body // d
- ) // e
- `d` // f
- , }")).
-Eval vm_compute in ("<<<M2925>>>" ++ check (runes_of_ascii "packet A {
-  match k as n {
-    [1, 22, 007, 4, 5, 66, 7] : B
-    2 : C
-  },
+Eval vm_compute in ("<<<M243>>>" ++ check (runes_of_ascii "packet leftPad{
+    trueish { char[] charz	@calculatedFrom(  ""\n"" )
+// @lengthOf(
+//x
+,
+    } , @rightPad
+    ( '0' ) @tag( 255 )len {
+    zchar[
+65535
+] f32a , }
+,f64
+    i8i8	`` , } options {chars = 00 Pad =
+    false // a // b
+stringy =
+string
+    }
+")).
+Eval vm_compute in ("<<<M1583>>>" ++ check (runes_of_ascii "
+packet 
+orderItem
+
+// c1
+{  // c2
+
+u8 	 // c3a
+// c3b
+  	a 
+
+// c4
+	,
+    // c5
+  	}  root packet // c8
+  	newOrder	// c9a
+// c9b
+    {  
+      // c10
+orderItem	// c11a
+  // c11b
+
+,  // c12
+  u8 
+    // c13
+    	x // c14
+  , }
+
+")).
+Eval vm_compute in ("<<<M442>>>" ++ check (runes_of_ascii "options
+{
+matchKey = 42/// triple
+x='0' ;
+// packet A { u8 x, }
+//
+charz
+=
+// packet A { u8 x, }
+// trailing space 
+true true  ; } MetaData BodyLength
+{
+uint8
+pack,zchar[ 1]float ,  float32 x_y_z `` ,u32
+_x,i16 body  , }
+")).
+Eval vm_compute in ("<<<M469>>>" ++ check (runes_of_ascii "options
+{
+matchKey = 42/// triple
+x='0' ;
+// packet A { u8 x, }
+//
+charz
+=
+// packet A { u8 x, }
+// trailing space 
+true  ; } MetaData BodyLength
+crc
+uint8
+pack,zchar[ 1]float ,  float32 x_y_z `` ,u32
+_x,i16 body  , }
+")).
+Eval vm_compute in ("<<<M583>>>" ++ check (runes_of_ascii "options
+{
+matchKey = 42/// triple
+x='0' ;
+// packet A { u8 x, }
+//
+charz
+=
+// packet A { u8 x, }
+// trailing space 
+true  ; } MetaData BodyLength
+{
+uint8'
+pack,zchar[ 1]float ,  float32 x_y_z `` ,u32
+_x,i16 body  , }
+")).
+Eval vm_compute in ("<<<M533>>>" ++ check (runes_of_ascii "options
+{
+matchKey = 42/// triple
+x='0' ;
+// packet A { u8 x, }
+//
+charz
+=
+// packet A { u8 x, }
+// trailing space 
+true  ; } MetaData BodyLength
+{
+uint8
+pack,zchar[ 1]float ,  float32 x_y_z `` ,_x
+u32,i16 body  , }
+")).
+Eval vm_compute in ("<<<M546>>>" ++ check (runes_of_ascii "options
+{
+matchKey = 42/// triple
+x='0' ;
+// packet A { u8 x, }
+//
+charz
+=
+// packet A { u8 x, }
+// trailing space 
+true  ; } MetaData BodyLength
+{
+uint8
+pack,zchar[ 1]float ,  float32 x_y_z `` ,u32
+_x, body  , }
+")).
+Eval vm_compute in ("<<<M461>>>" ++ check (runes_of_ascii "options
+{
+matchKey = 42/// triple
+x='0' ;
+// packet A { u8 x, }
+//
+charz
+=
+// packet A { u8 x, }
+// trailing space 
+true  ; } MetaData 
+{
+uint8
+pack,zchar[ 1]float ,  float32 x_y_z `` ,u32
+_x,i16 body  , }
+")).
+Eval vm_compute in ("<<<M49>>>" ++ check (runes_of_ascii "// a // b
+root
+    packet string_ { i32 options1 `say ""hi""`
+, } packet stringy
+// " ++ [128512]%N ++ runes_of_ascii " emoji
+/// triple
+{
+    } MetaData
+len  {i8i8
+charz
+    `u8 x,`,
+// `tick` ""quote"" 'q'
+// trailing space 
 }")).
-Eval vm_compute in ("<<<M3581>>>" ++ check (runes_of_ascii "packet 
-      //	t
-    //
-
-	packetx 
-{ repeat	zchar[
-	007
-	]Foo
-
+Eval vm_compute in ("<<<M672>>>" ++ check (runes_of_ascii "// c
+packet i64_ {	char[] calculatedFrom , } } packet
+trueish  {@calculatedFrom(
+""a\\"" ) o { i32 falsey@lengthOf( uint8x ),
+} , } // `tick` ""quote"" 'q'
+options {// c
+Z9_ = ' '//
+}
+")).
+Eval vm_compute in ("<<<M721>>>" ++ check (runes_of_ascii "// c
+packet i64_ {	char[] calculatedFrom , } packet
+trueish  {@calculatedFrom(
+""a\\""  o { i32 falsey@lengthOf( uint8x ),
+} , } // `tick` ""quote"" 'q'
+options {// c
+Z9_ = ' '//
+}
+")).
+Eval vm_compute in ("<<<M77>>>" ++ check (runes_of_ascii "MetaData o
+    { char[] i64_
+`{ , }`	, u16 tag  ,
+char[]
+lengthOf	`u8 x,` , Z9_  rootA`
+`,
+zchar[	3 // trailing space 
+] u, // " ++ [27880; 37322]%N ++ runes_of_ascii "
+float T
+//	t
+//	t
+`{ , }`
     , }
 ")).
-Eval vm_compute in ("<<<M702>>>" ++ check (runes_of_ascii "// packet A { u8 x, }
-options{u
-=string ;chars=
-""" ++ [128512]%N ++ runes_of_ascii """ ; MetaDataX =false }
-")).
-Eval vm_compute in ("<<<M3394>>>" ++ check (runes_of_ascii "
-// c
-MetaData _x { zchar[ 4294967296 ] lengthOf `// not a comment` , }")).
-Eval vm_compute in ("<<<M3407>>>" ++ check (runes_of_ascii "MetaData _x { zchar[ 4294967296 ] lengthOf // c
-`// not a comment` , }")).
-Eval vm_compute in ("<<<M2010>>>" ++ check (runes_of_ascii "root
-packet crc
-    { f32a @calculatedFrom( """ ++ [233]%N ++ runes_of_ascii "t" ++ [233]%N ++ runes_of_ascii """ )
-    `say ""hi""`,")).
-Eval vm_compute in ("<<<M2877>>>" ++ check (runes_of_ascii "packet A {
-  match k as n {
-    [1, ""bb"", 007] : B
-    2 : C
-  },
+Eval vm_compute in ("<<<M1890>>>" ++ check (runes_of_ascii "options {
+    // trailing space 
+    A = ' ';
+    calculatedFrom = ""a\""b"";
+    msg_type = char[4294967296];
+    //
+    rootA = '\x00'
+    msg_type = false
 }")).
-Eval vm_compute in ("<<<M428>>>" ++ check (runes_of_ascii "options{u128=
-    '0' ; u128 = ' ' Logon=char[] A=
-    char[];	}
+Eval vm_compute in ("<<<M1306>>>" ++ check (runes_of_ascii "MetaData _x
+    // c1
+{
+    // c2
+zchar[ 4294967296 // c4a
+  // c4b
+] lengthOf // c6
+`// not a comment` // c7a
+  // c7b
+,
+    // c8
+}
+    // c9
 ")).
-Eval vm_compute in ("<<<M2179>>>" ++ check (runes_of_ascii "root
-    // `tick` ""quote"" 'q'
-    packet As { trueish u64 , }
-")).
-Eval vm_compute in ("<<<M2863>>>" ++ check (runes_of_ascii "packet A {
-  match k as n {
-    [1, 22] : B,
-    2 : C
-  },
-}")).
-Eval vm_compute in ("<<<M3587>>>" ++ check (runes_of_ascii "
+Eval vm_compute in ("<<<M1532>>>" ++ check (runes_of_ascii "
 
-  packet  A
-{zchar[
+  packet Logon 	 // c
+	{
 
-    3 ]
-    x
-	@lengthOf(
-y) ,
+@tag(
+
+42) @rightPad 
+(
+
+    ' '
+
+)
+@leftPad ( )
+    repeat
+
+    trueish{  string	T ,
 	}
+    ,
+    }")).
+Eval vm_compute in ("<<<M53>>>" ++ check (runes_of_ascii "  options{ u= ""a	b"" ; charz = true ;
+    matchKey =//x
+0123456789 u8x =
+char[]
+    // trailing space 
+    Packet
+=
+false ; }
 ")).
-Eval vm_compute in ("<<<M2375>>>" ++ check (runes_of_ascii "MetaData Packet { }packet	asx  { @lengthOf( asx) falsey`c")).
-Eval vm_compute in ("<<<M1814>>>" ++ check (runes_of_ascii "packet
-    Pad // a // b
-{ i8i8 @calculatedFrom( ""a	b""")).
-Eval vm_compute in ("<<<M2420>>>" ++ check (runes_of_ascii "MetaData caf" ++ [233]%N ++ runes_of_ascii "_1
-{
-i64
-chars	, } // `tick` ""quote"" 'q'")).
-Eval vm_compute in ("<<<M1938>>>" ++ check (runes_of_ascii "
-packet	As { @calculatedFrom(//x
-""{,}""	)lengthOf ,")).
-Eval vm_compute in ("<<<M2820>>>" ++ check (runes_of_ascii "match char[] , uint64 as i64 root uint32 MetaData")).
-Eval vm_compute in ("<<<M1768>>>" ++ check (runes_of_ascii "options { }optio''ns {  } // `tick` ""quote"" 'q'")).
-Eval vm_compute in ("<<<M1778>>>" ++ check (runes_of_ascii "options { }options {  } // `tick` ""quote"" '<q'")).
-Eval vm_compute in ("<<<M420>>>" ++ check (runes_of_ascii "options {
-// " ++ [27880; 37322]%N ++ runes_of_ascii "
-//
-calculatedFrom
-= false }")).
-Eval vm_compute in ("<<<M3036>>>" ++ check (runes_of_ascii "MetaData M {
-    u8 x `x
-`,
-    T t `x
-`,
-}")).
-Eval vm_compute in ("<<<M2413>>>" ++ check (runes_of_ascii "[ A
-{
-i64
-chars	, } // `tick` ""quote"" 'q'")).
-Eval vm_compute in ("<<<M2744>>>" ++ check (runes_of_ascii "!}#nP]WB#d!4m &%rd=1Z\-""oa^ntV9;N*>hg2cq")).
-Eval vm_compute in ("<<<M794>>>" ++ check (runes_of_ascii "// " ++ [128512]%N ++ runes_of_ascii " emoji
-options { MetaDataX=string }")).
-Eval vm_compute in ("<<<M2604>>>" ++ check (runes_of_ascii "packet A { match k as n { 1 : B,, }, }")).
-Eval vm_compute in ("<<<M2729>>>" ++ check (runes_of_ascii "MetaData match @lengthOf( match 007 )")).
-Eval vm_compute in ("<<<M2639>>>" ++ check (runes_of_ascii "root packet A { } root packet B { }")).
-Eval vm_compute in ("<<<M2610>>>" ++ check (runes_of_ascii "packet A { match k n { 1 : B }, }")).
-Eval vm_compute in ("<<<M661>>>" ++ check (runes_of_ascii "options  { metadata=""packet""	}
-")).
-Eval vm_compute in ("<<<M3068>>>" ++ check (runes_of_ascii "packet A {
- u8 x `d" ++ [12288]%N ++ runes_of_ascii "`, // c" ++ [12288]%N ++ runes_of_ascii "
-}")).
-Eval vm_compute in ("<<<M3162>>>" ++ check (runes_of_ascii "MetaData M {
-}// c
-options {}")).
-Eval vm_compute in ("<<<M1202>>>" ++ check (runes_of_ascii "options {tag = ""it's"" ;
+Eval vm_compute in ("<<<M1347>>>" ++ check (runes_of_ascii "packet B {
+    u8 a,
+}
+root packet P {
+    u8 K,
+    u8 L @lengthOf(Body),
+    match K as Body {
+        1 : B,
+    },
 }
 ")).
-Eval vm_compute in ("<<<M2084>>>" ++ check (runes_of_ascii "MetaData A { u64 pack\ , }")).
-Eval vm_compute in ("<<<M2239>>>" ++ check (runes_of_ascii "MetaData Packet { }packet")).
-Eval vm_compute in ("<<<M2098>>>" ++ check (runes_of_ascii "MetaData A { u64 " ++ [252]%N ++ runes_of_ascii "ber, }")).
-Eval vm_compute in ("<<<M2051>>>" ++ check (runes_of_ascii "MetaData  { u64 pack, }")).
-Eval vm_compute in ("<<<M1980>>>" ++ check (runes_of_ascii "root
-packet crc
-    {")).
-Eval vm_compute in ("<<<M3154>>>" ++ check (runes_of_ascii "// a// bpacket A {}")).
-Eval vm_compute in ("<<<M876>>>" ++ check (runes_of_ascii "// @lengthOf(
- //	t")).
-Eval vm_compute in ("<<<M914>>>" ++ check (runes_of_ascii "packet
-    As { }
+Eval vm_compute in ("<<<M647>>>" ++ check (runes_of_ascii "MetaData
+    // trailing space 
+    matchKey
+{ u64 chars // a // b
+,char[] length<Of `// not a comment`
+    , //	t
+}")).
+Eval vm_compute in ("<<<M1973>>>" ++ check (runes_of_ascii "
+
+  packet
+
+    A  {
+
+    match
+k as  n
+    {	[
+
+""a""	, ""bb"",
+    ""c c"" 
+]
+
+    :
+    B ,
+	2
+	: C  }
+
+    , } ")).
+Eval vm_compute in ("<<<M1703>>>" ++ check (runes_of_ascii "// c
+packet Logon {
+    @tag(42)
+    @rightPad(' ')
+    @leftPad()
+    repeat trueish {
+        string T,
+    },
+}")).
+Eval vm_compute in ("<<<M1377>>>" ++ check (runes_of_ascii "root packet
+    // c1
+P {
+    // c3
+repeat string ss , // c7
+repeat // c8
+u16 // c9
+ns
+    // c10
+, } // c12
 ")).
-Eval vm_compute in ("<<<M3101>>>" ++ check (runes_of_ascii "packet A {
+Eval vm_compute in ("<<<M896>>>" ++ check (runes_of_ascii "packet A {
+  match k as n {
+    [""a"", 22, ""c c"", 4, ""e"", 66, ""g"", 8, ""i"", 10, ""k""] : B,
+    2 : C
+  },
+}")).
+Eval vm_compute in ("<<<M1271>>>" ++ check (runes_of_ascii "packet calculatedFrom { @tag( 4294967296 ) u msg_type , char[ // c
+3 ] crc @lengthOf( len ) `u8 x,` , }")).
+Eval vm_compute in ("<<<M919>>>" ++ check (runes_of_ascii "packet A {
+    Inner {
+        u8 x `a
+b`,
+        Deep {
+            u8 y `a
+b`,
+        },
+    },
+}")).
+Eval vm_compute in ("<<<M875>>>" ++ check (runes_of_ascii "packet A {
+  match k as n {
+    [""a"", ""bb"", 007, ""d"", ""e"", 66, ""g"", ""h"", 9] : B
+    2 : C
+  },
+}")).
+Eval vm_compute in ("<<<M1149>>>" ++ check (runes_of_ascii "packet Logon { @tag( 42 ) @rightPad ( ' ' )
+// c
+@leftPad ( ) repeat trueish { string T , } , }")).
+Eval vm_compute in ("<<<M1566>>>" ++ check (runes_of_ascii "
+packet A { B
+
+b
+`a
+    b
+  c` 
+,
+    B `a
+    b
+  c` 
+,
+
+repeat B
+    bs
+	`a
+    b
+  c`
+, }
+")).
+Eval vm_compute in ("<<<M858>>>" ++ check (runes_of_ascii "packet A {
+  match k as n {
+    [""a"", 22, ""c c"", 4, ""e"", 66, ""g"", 8] : B
+    2 : C
+  },
+}")).
+Eval vm_compute in ("<<<M1965>>>" ++ check (runes_of_ascii "
+// `tick` ""quote"" 'q'
+    options
+
+    {leftPad
+
+= 
+float32
+
+} root  packet o {
+} ")).
+Eval vm_compute in ("<<<M256>>>" ++ check (runes_of_ascii "packet matchKey {
+@tag( 7
+    ) @leftPad
+    //x
+    ( '\x00')
+    string_ ,	} 	 ")).
+Eval vm_compute in ("<<<M1232>>>" ++ check (runes_of_ascii "packet o { @tag( 42 ) repeat x { char[ 0123456789 ] i64_ // c
+, } , } options { }")).
+Eval vm_compute in ("<<<M278>>>" ++ check (runes_of_ascii "options  {Packet= zchar[ 3
+] u128 = zchar[
+42 ] a1=
+'\x00'	;
+crc=	0	; //	t
 }
-// c" ++ [8233]%N)).
-Eval vm_compute in ("<<<M2653>>>" ++ check (runes_of_ascii "options { a = 1 }")).
-Eval vm_compute in ("<<<M2070>>>" ++ check (runes_of_ascii "MetaData A { u64")).
-Eval vm_compute in ("<<<M1794>>>" ++ check (runes_of_ascii "packet
-    Pad")).
-Eval vm_compute in ("<<<M2556>>>" ++ check (runes_of_ascii """" ++ [233]%N ++ runes_of_ascii """ `" ++ [21517]%N ++ runes_of_ascii "` // " ++ [252]%N)).
-Eval vm_compute in ("<<<M1940>>>" ++ check (runes_of_ascii "
-packet	A")).
-Eval vm_compute in ("<<<M2489>>>" ++ check (runes_of_ascii "@tag(1)")).
-Eval vm_compute in ("<<<M1334>>>" ++ check (runes_of_ascii "// c
 ")).
-Eval vm_compute in ("<<<M3095>>>" ++ check (runes_of_ascii "// c" ++ [8232]%N)).
-Eval vm_compute in ("<<<M2539>>>" ++ check (runes_of_ascii "{}{}")).
-Eval vm_compute in ("<<<M2546>>>" ++ check (runes_of_ascii "a" ++ [11]%N ++ runes_of_ascii "b")).
-Eval vm_compute in ("<<<M2736>>>" ++ check (runes_of_ascii "u!")).
+Eval vm_compute in ("<<<M802>>>" ++ check (runes_of_ascii "packet A {
+  match k as n {
+    [""a"", ""bb"", ""c c"", ""d""] : B
+    2 : C
+  },
+}")).
+Eval vm_compute in ("<<<M959>>>" ++ check (runes_of_ascii "packet A {
+    B b `tab
+	x`,
+    B `tab
+	x`,
+    repeat B bs `tab
+	x`,
+}")).
+Eval vm_compute in ("<<<M1314>>>" ++ check (runes_of_ascii "MetaData _x {
+// c
+zchar[ 4294967296 ] lengthOf `// not a comment` , }")).
+Eval vm_compute in ("<<<M1369>>>" ++ check (runes_of_ascii "root packet P {
+    u16 a,
+    u32 Sum @calculatedFrom(""CRC32""),
+}
+")).
+Eval vm_compute in ("<<<M1635>>>" ++ check (runes_of_ascii "MetaData charz {
+    zchar[42] packetx `crlf
+        line`,
+}")).
+Eval vm_compute in ("<<<M1967>>>" ++ check (runes_of_ascii "options {
+    a = ""x\
+        y"";
+    b = ""x\
+        y""
+}")).
+Eval vm_compute in ("<<<M1084>>>" ++ check (runes_of_ascii "packet A { B { // a
+ u8 x, // b
+ } // c
+ , // d
+ }")).
+Eval vm_compute in ("<<<M766>>>" ++ check (runes_of_ascii "= @calculatedFrom( true '\x00' i64 uint32")).
+Eval vm_compute in ("<<<M1954>>>" ++ check (runes_of_ascii "options {
+    a = 1// c
+    b = 2;// d
+}")).
+Eval vm_compute in ("<<<M1989>>>" ++ check (runes_of_ascii "options {
+    // " ++ [27880; 37322]%N ++ runes_of_ascii "
+    T = int64
+}")).
+Eval vm_compute in ("<<<M958>>>" ++ check (runes_of_ascii "packet A {
+    u8 x `tab
+	x`,
+}")).
+Eval vm_compute in ("<<<M1482>>>" ++ check (runes_of_ascii "
+
+  // c" ++ [5760]%N ++ runes_of_ascii "
+  	packet
+	A  {  }
+")).
+Eval vm_compute in ("<<<M1936>>>" ++ check (runes_of_ascii "options {
+    i64_ = 00
+}")).
+Eval vm_compute in ("<<<M1623>>>" ++ check (runes_of_ascii "packet repeatCount {
+}")).
+Eval vm_compute in ("<<<M980>>>" ++ check (runes_of_ascii "packet A {
+}
+// c" ++ [12288]%N)).
+Eval vm_compute in ("<<<M1073>>>" ++ check (runes_of_ascii "MetaData M {
+}// c")).
+Eval vm_compute in ("<<<M741>>>" ++ check (runes_of_ascii "xgTn-gkPTrfXT@?")).
+Eval vm_compute in ("<<<M38>>>" ++ check (runes_of_ascii "
+ 	 ")).
+Eval vm_compute in ("<<<M733>>>" ++ check ([65279]%N)).
